@@ -417,10 +417,11 @@ Qed.
 Definition final (x x' : rq) : Prop :=
   static (fst x') = static (fst x)
   /\ q_fair (fst x) <= q_fair (fst x')
+  /\ q_fair (fst x') <= q_fair (fst x) + 1
   /\ (UB x -> q_fair (fst x') < requestable (fst x') + 1).
 
 Lemma final_refl x : final x x.
-Proof. unfold final. split; [reflexivity|]. split; [lra|]. intros [H _]. lra. Qed.
+Proof. unfold final. split; [reflexivity|]. split; [lra|]. split; [lra|]. intros [H _]. lra. Qed.
 
 Lemma Forall2_final_refl l : Forall2 final l l.
 Proof. induction l; constructor; auto using final_refl. Qed.
@@ -456,7 +457,7 @@ Proof.
       destruct Hr as [R1 [R2 R3]]. rewrite qsub_eq in R2.
       split.
       { constructor; [|exact R1]. unfold final. cbn [fst snd].
-        split; [reflexivity|]. rewrite requestable_add, fair_add. split; [lra|].
+        split; [reflexivity|]. rewrite requestable_add, fair_add. split; [lra|]. split; [lra|].
         intros [_ HU]. specialize (HU Hhe). cbn [fst] in HU. lra. }
       split; [|exact R3].
       rewrite !fairs_cons. cbn [fst]. rewrite fair_add. lra.
@@ -762,7 +763,7 @@ Proof.
     rewrite <- Dst. apply Permutation_map. exact HL. }
   split.
   { intros q' Hq'. apply in_map_iff in Hq' as [x2 [<- Hx2]].
-    destruct (HE x2 Hx2) as [x1 [Hx1 [F1 [F2 F3]]]].
+    destruct (HE x2 Hx2) as [x1 [Hx1 [F1 [F2 [_ F3]]]]].
     destruct (Forall2_in_r _ _ _ _ B1 Hx1) as [x0 [Hx0 [E1 [E2 [E3 E4]]]]].
     apply in_map_iff in Hx0 as [q1 [<- Hq1]]. cbn [fst] in *.
     apply (Permutation_in _ HL) in Hq1.
@@ -861,4 +862,1825 @@ Proof.
   - repeat constructor.
   - vm_compute. reflexivity.
   - vm_compute. reflexivity.
+Qed.
+
+(** * Non-vacuity *)
+Definition ex_queues : list queue :=
+  [mkQ 1 0 0 1 unlimited 1 100 0 0; mkQ 2 1 0 0 unlimited 2 3 0 0; mkQ 3 1 0 0 unlimited 1 (7 # 2) 0 0].
+Definition ex_result : list queue :=
+  [mkQ 2 1 0 0 unlimited 2 3 0 3; mkQ 3 1 0 0 unlimited 1 (7 # 2) 0 (7 # 2);
+   mkQ 1 0 0 1 unlimited 1 100 0 (7 # 2)].
+Lemma ex_division :
+  fresh ex_queues
+  /\ set_resource_share 10 0 ex_queues = Done (ex_result, 0)
+  /\ sum_phase1 10 ex_queues < 10.
+Proof.
+  split; [repeat constructor|]. split; vm_compute; reflexivity.
+Qed.
+
+(** * Order independence *)
+Lemma qsub_swap t a b : qsub (qsub t a) b = qsub (qsub t b) a.
+Proof. unfold qsub. apply Qred_complete. rewrite !Qred_correct. ring. Qed.
+Lemma qadd_swap t a b : qadd (qadd t a) b = qadd (qadd t b) a.
+Proof. unfold qadd. apply Qred_complete. rewrite !Qred_correct. ring. Qed.
+
+Lemma fold_left_perm {A B} (f : B -> A -> B) :
+  (forall b x y, f (f b x) y = f (f b y) x) ->
+  forall l l', Permutation l l' -> forall b, fold_left f l b = fold_left f l' b.
+Proof.
+  intros C l l' P. induction P; intros b; cbn [fold_left].
+  - reflexivity.
+  - apply IHP.
+  - rewrite C. reflexivity.
+  - rewrite IHP1. apply IHP2.
+Qed.
+
+Lemma existsb_perm {A} (f : A -> bool) l l' : Permutation l l' -> existsb f l = existsb f l'.
+Proof.
+  induction 1; cbn [existsb]; try congruence.
+  destruct (f x), (f y); reflexivity.
+Qed.
+
+Lemma filter_perm {A} (f : A -> bool) l l' : Permutation l l' -> Permutation (filter f l) (filter f l').
+Proof.
+  induction 1; cbn [filter].
+  - constructor.
+  - destruct (f x); [constructor|]; assumption.
+  - destruct (f x), (f y); try reflexivity. apply perm_swap.
+  - etransitivity; eassumption.
+Qed.
+
+Lemma total_weights_perm l l' : Permutation l l' -> total_weights l = total_weights l'.
+Proof.
+  intros P. unfold total_weights. apply fold_left_perm; [|exact P].
+  intros b x y. destruct (qltb 0 (remaining_requested (fst x))), (qltb 0 (remaining_requested (fst y)));
+    try reflexivity. apply qadd_swap.
+Qed.
+
+Lemma share_weights_sum_perm k W l l' :
+  Permutation l l' -> share_weights_sum k W l = share_weights_sum k W l'.
+Proof.
+  intros P. unfold share_weights_sum. apply fold_left_perm; [|exact P].
+  intros b x y. destruct (satisfied (fst x)), (satisfied (fst y)); try reflexivity. apply qadd_swap.
+Qed.
+
+Section RoundDecl.
+Variables amount k W sum : Q.
+Hypothesis Hamount : 0 <= amount.
+Hypothesis Hsum : 0 < sum.
+
+Definition visit_out (x : rq) : rq := fst (fst (visit amount k W sum x)).
+Definition visit_g (x : rq) : Q := snd (fst (visit amount k W sum x)).
+Definition visit_a (x : rq) : bool := snd (visit amount k W sum x).
+Definition take (t : Q) (x : rq) : Q := if qeqb (visit_g x) 0 then t else qsub t (visit_g x).
+
+(** the round as a map over the queues: no reference to the iteration order *)
+Definition round_decl (qs : list rq) (total : Q) (again : bool) : list rq * Q * bool :=
+  (map visit_out qs, fold_left take qs total, again || existsb visit_a qs).
+
+Lemma visit_idle x :
+  amount * wshare k W x == 0 -> visit amount k W sum x = (x, 0, false).
+Proof.
+  destruct x as [q e]. unfold visit, wshare. cbn [fst snd].
+  destruct (satisfied q) eqn:Hs; cbn [orb]; [reflexivity|].
+  destruct (qeqb (q_weight q) 0) eqn:Hw; [reflexivity|].
+  intros Hz.
+  pose proof (fs_facts amount sum Hamount Hsum _ (share_weight_nonneg k W q)) as [Hfs0 Hfs].
+  set (fs := qmul amount (qdiv (share_weight k W q) sum)) in *.
+  assert (Hfz : fs == 0).
+  { assert (fs * sum == 0) by lra. apply Qmult_integral in H. destruct H; lra. }
+  pose proof (remaining_unsat q Hs) as [_ Hrr0].
+  unfold give_in_round.
+  destruct (qleb (remaining_requested q) fs) eqn:E.
+  { apply qleb_iff in E. lra. }
+  assert (Hfl : qfloor fs = 0).
+  { unfold qfloor. rewrite Hfz. reflexivity. }
+  rewrite Hfl. change (qltb 0 0) with false. cbn iota.
+  destruct (qltb 0 (qsub fs 0)) eqn:E2.
+  { apply qltb_iff in E2. rewrite qsub_eq in E2. lra. }
+  change (qeqb 0 0) with true. cbn iota. reflexivity.
+Qed.
+
+Lemma idle_all : forall qs total,
+  (forall x, In x qs -> amount * wshare k W x == 0) ->
+  map visit_out qs = qs /\ fold_left take qs total = total /\ existsb visit_a qs = false.
+Proof.
+  induction qs as [|x r IH]; intros total H; cbn [map fold_left existsb]; [auto|].
+  pose proof (visit_idle x (H x (or_introl eq_refl))) as Hv.
+  destruct (IH total (fun y Hy => H y (or_intror Hy))) as [I1 [I2 I3]].
+  unfold visit_out at 1, visit_a at 1, take at 2, visit_g. rewrite Hv. cbn [fst snd].
+  change (qeqb 0 0) with true. cbn iota. rewrite I1, I2, I3. auto.
+Qed.
+
+Lemma wsum_zero_all : forall qs, amount * wsum k W qs <= 0 ->
+  forall x, In x qs -> amount * wshare k W x == 0.
+Proof.
+  induction qs as [|y r IH]; intros H x Hx; [destruct Hx|].
+  change (wsum k W (y :: r)) with (wshare k W y + wsum k W r) in H.
+  pose proof (wshare_nonneg k W y). pose proof (wsum_nonneg k W r).
+  assert (0 <= amount * wshare k W y) by (apply Qmult_le_0_compat; assumption).
+  assert (0 <= amount * wsum k W r) by (apply Qmult_le_0_compat; assumption).
+  destruct Hx as [->|Hx]; [lra|]. apply IH; [lra|exact Hx].
+Qed.
+
+Lemma round_decl_eq : forall qs total again,
+  amount * wsum k W qs <= total * sum ->
+  round_queues amount k W sum qs total again = round_decl qs total again.
+Proof.
+  induction qs as [|x r IH]; intros total again Inv.
+  - unfold round_decl. cbn. rewrite orb_false_r. reflexivity.
+  - cbn [round_queues]. destruct (qeqb total 0) eqn:Ht.
+    + apply qeqb_iff in Ht. unfold round_decl.
+      destruct (idle_all (x :: r) total) as [I1 [I2 I3]].
+      { apply wsum_zero_all. rewrite Ht in Inv. lra. }
+      rewrite I1, I2, I3, orb_false_r. reflexivity.
+    + destruct (visit amount k W sum x) as [[x1 g] a] eqn:Hv.
+      pose proof (visit_spec amount k W sum Hamount Hsum _ _ _ _ Hv) as [_ [V2 [_ [V4 _]]]].
+      rewrite IH.
+      2:{ change (wsum k W (x :: r)) with (wshare k W x + wsum k W r) in Inv.
+          destruct (qeqb g 0) eqn:Hg0.
+          - apply qeqb_iff in Hg0. rewrite Hg0 in V4. lra.
+          - rewrite qsub_eq. lra. }
+      unfold round_decl. cbn [map fold_left existsb].
+      unfold visit_out at 2, visit_a at 2, take at 3, visit_g. rewrite Hv. cbn [fst snd].
+      rewrite orb_assoc. reflexivity.
+Qed.
+
+Lemma take_swap t x y : take (take t x) y = take (take t y) x.
+Proof.
+  unfold take. destruct (qeqb (visit_g x) 0), (qeqb (visit_g y) 0); try reflexivity. apply qsub_swap.
+Qed.
+
+Lemma round_decl_perm qs qs' total again :
+  Permutation qs qs' ->
+  let '(o, t, a) := round_decl qs total again in
+  let '(o', t', a') := round_decl qs' total again in
+  Permutation o o' /\ t = t' /\ a = a'.
+Proof.
+  intros P. unfold round_decl. split; [apply Permutation_map; exact P|].
+  split; [apply fold_left_perm; [apply take_swap|exact P]|].
+  rewrite (existsb_perm _ _ _ P). reflexivity.
+Qed.
+End RoundDecl.
+
+(** ** insertion sort by a strict order yields one list for all permutations *)
+Section SortUnique.
+Context {A : Type} (lt : A -> A -> bool).
+Hypothesis lt_irrefl : forall x, lt x x = false.
+Hypothesis lt_trans : forall x y z, lt x y = true -> lt y z = true -> lt x z = true.
+
+Fixpoint insert_by (x : A) (l : list A) : list A :=
+  match l with
+  | [] => [x]
+  | y :: r => if lt x y then x :: y :: r else y :: insert_by x r
+  end.
+Definition sort_by (l : list A) : list A := fold_right insert_by [] l.
+
+Definition le (x y : A) : Prop := lt y x = false.
+
+Lemma insert_by_perm x l : Permutation (insert_by x l) (x :: l).
+Proof.
+  induction l as [|y l IH]; cbn [insert_by]; [reflexivity|].
+  destruct (lt x y); [reflexivity|]. rewrite IH. apply perm_swap.
+Qed.
+Lemma sort_by_perm l : Permutation (sort_by l) l.
+Proof.
+  induction l as [|x l IH]; cbn; [constructor|]. fold (sort_by l).
+  rewrite insert_by_perm. constructor. exact IH.
+Qed.
+
+Lemma insert_by_sorted x l : StronglySorted le l -> StronglySorted le (insert_by x l).
+Proof.
+  induction 1 as [|y r HS IH HF]; cbn [insert_by].
+  - constructor; constructor.
+  - destruct (lt x y) eqn:E.
+    + constructor; [constructor; assumption|]. constructor.
+      * unfold le. destruct (lt y x) eqn:E2; [|reflexivity].
+        pose proof (lt_trans _ _ _ E E2) as C. rewrite lt_irrefl in C. discriminate.
+      * apply Forall_forall. intros z Hz. rewrite Forall_forall in HF. specialize (HF z Hz).
+        unfold le in *. destruct (lt z x) eqn:E2; [|reflexivity].
+        pose proof (lt_trans _ _ _ E2 E) as C. congruence.
+    + constructor; [exact IH|]. apply Forall_forall. intros z Hz.
+      apply (Permutation_in _ (insert_by_perm x r)) in Hz. destruct Hz as [<-|Hz]; [exact E|].
+      rewrite Forall_forall in HF. apply HF. exact Hz.
+Qed.
+Lemma sort_by_sorted l : StronglySorted le (sort_by l).
+Proof. induction l; cbn; [constructor|apply insert_by_sorted; assumption]. Qed.
+
+Lemma sorted_perm_eq l : forall l',
+  (forall x y, In x l -> In y l -> le x y -> le y x -> x = y) ->
+  StronglySorted le l -> StronglySorted le l' -> Permutation l l' -> l = l'.
+Proof.
+  induction l as [|a l IH]; intros l' AS S S' P.
+  - apply Permutation_nil in P. subst. reflexivity.
+  - destruct l' as [|b l']; [apply Permutation_sym, Permutation_nil in P; discriminate|].
+    inversion S as [|? ? S1 F1]. inversion S' as [|? ? S1' F1']. subst.
+    assert (Hab : a = b).
+    { assert (Ha : In a (b :: l')) by (apply (Permutation_in _ P); left; reflexivity).
+      assert (Hb : In b (a :: l)) by (apply (Permutation_in _ (Permutation_sym P)); left; reflexivity).
+      destruct Ha as [<-|Ha]; [reflexivity|]. destruct Hb as [<-|Hb]; [reflexivity|].
+      rewrite Forall_forall in F1, F1'.
+      apply AS; [left; reflexivity|right; exact Hb|apply F1; exact Hb|apply F1'; exact Ha]. }
+    subst b. f_equal. apply IH; try assumption.
+    + intros x y Hx Hy. apply AS; right; assumption.
+    + eapply Permutation_cons_inv. exact P.
+Qed.
+
+Lemma sort_by_unique l l' :
+  (forall x y, In x l -> In y l -> le x y -> le y x -> x = y) ->
+  Permutation l l' -> sort_by l = sort_by l'.
+Proof.
+  intros AS P. apply sorted_perm_eq; try apply sort_by_sorted.
+  - intros x y Hx Hy. apply AS; apply (Permutation_in _ (sort_by_perm l)); assumption.
+  - rewrite sort_by_perm, P. symmetry. apply sort_by_perm.
+Qed.
+End SortUnique.
+
+(** ** the order of remainingRequestedOrderFn *)
+Lemma entry_before_iff x y :
+  entry_before x y = true <->
+  entry_amount y < entry_amount x
+  \/ (entry_amount x == entry_amount y
+      /\ ((q_created (fst x) < q_created (fst y))%Z
+          \/ (q_created (fst x) = q_created (fst y) /\ (q_uid (fst x) < q_uid (fst y))%positive))).
+Proof.
+  unfold entry_before.
+  destruct (qltb (entry_amount y) (entry_amount x)) eqn:E1.
+  { apply qltb_iff in E1. split; auto. }
+  apply qltb_false in E1.
+  destruct (qltb (entry_amount x) (entry_amount y)) eqn:E2.
+  { apply qltb_iff in E2. split; [discriminate|]. intros [H|[H _]]; lra. }
+  apply qltb_false in E2.
+  assert (Heq : entry_amount x == entry_amount y) by lra.
+  destruct (q_created (fst x) =? q_created (fst y))%Z eqn:E3; cbn [negb].
+  - apply Z.eqb_eq in E3. rewrite Pos.ltb_lt. split.
+    + intros H. right. split; [exact Heq|]. right. split; assumption.
+    + intros [H|[_ [H|[_ H]]]]; [lra|lia|exact H].
+  - apply Z.eqb_neq in E3. rewrite Z.ltb_lt. split.
+    + intros H. right. split; [exact Heq|]. left. exact H.
+    + intros [H|[_ [H|[H _]]]]; [lra|exact H|lia].
+Qed.
+
+Lemma entry_before_irrefl x : entry_before x x = false.
+Proof.
+  destruct (entry_before x x) eqn:E; [|reflexivity].
+  apply entry_before_iff in E. destruct E as [H|[_ [H|[_ H]]]]; [lra|lia|lia].
+Qed.
+
+Lemma entry_before_trans x y z :
+  entry_before x y = true -> entry_before y z = true -> entry_before x z = true.
+Proof.
+  rewrite !entry_before_iff.
+  intros [A|[A1 [A2|[A2 A3]]]] [B|[B1 [B2|[B2 B3]]]];
+    try (left; lra); right; (split; [lra|]); try (left; lia); right; split; lia.
+Qed.
+
+Lemma entry_total x y :
+  entry_before x y = false -> entry_before y x = false -> q_uid (fst x) = q_uid (fst y).
+Proof.
+  intros H1 H2.
+  destruct (Qlt_le_dec (entry_amount y) (entry_amount x)) as [C|C].
+  { assert (entry_before x y = true) by (apply entry_before_iff; auto). congruence. }
+  destruct (Qlt_le_dec (entry_amount x) (entry_amount y)) as [C'|C'].
+  { assert (entry_before y x = true) by (apply entry_before_iff; auto). congruence. }
+  assert (E : entry_amount x == entry_amount y) by lra.
+  destruct (Z.lt_trichotomy (q_created (fst x)) (q_created (fst y))) as [L|[L|L]].
+  - assert (entry_before x y = true) by (apply entry_before_iff; right; split; [exact E|left; exact L]). congruence.
+  - destruct (Pos.lt_total (q_uid (fst x)) (q_uid (fst y))) as [U|[U|U]]; [|exact U|].
+    + assert (entry_before x y = true) by (apply entry_before_iff; right; split; [exact E|right; split; assumption]). congruence.
+    + assert (entry_before y x = true) by (apply entry_before_iff; right; split; [symmetry; exact E|right; split; [symmetry; exact L|exact U]]). congruence.
+  - assert (entry_before y x = true) by (apply entry_before_iff; right; split; [symmetry; exact E|left; exact L]). congruence.
+Qed.
+
+Lemma sort_entries_is_sort_by l : sort_entries l = sort_by entry_before l.
+Proof.
+  unfold sort_entries, sort_by. induction l as [|x l IH]; cbn [fold_right]; [reflexivity|].
+  rewrite IH. generalize (fold_right (insert_by entry_before) [] l). intros m.
+  induction m as [|y m IHm]; cbn [insert_entry insert_by]; [reflexivity|].
+  destruct (entry_before x y); [reflexivity|]. rewrite IHm. reflexivity.
+Qed.
+
+Definition uid_of (x : rq) : positive := q_uid (fst x).
+
+Lemma nodup_map_inj {A B} (f : A -> B) l x y :
+  NoDup (map f l) -> In x l -> In y l -> f x = f y -> x = y.
+Proof.
+  induction l as [|a l IH]; cbn [map]; intros ND Hx Hy E; [destruct Hx|].
+  inversion ND as [|? ? Hn ND']. subst.
+  destruct Hx as [->|Hx], Hy as [->|Hy]; try reflexivity.
+  - exfalso. apply Hn. rewrite E. apply in_map. exact Hy.
+  - exfalso. apply Hn. rewrite <- E. apply in_map. exact Hx.
+  - apply IH; assumption.
+Qed.
+
+Lemma sort_entries_perm_eq l l' :
+  NoDup (map uid_of l) -> Permutation l l' -> sort_entries l = sort_entries l'.
+Proof.
+  intros ND P. rewrite !sort_entries_is_sort_by.
+  apply (sort_by_unique entry_before entry_before_irrefl entry_before_trans); [|exact P].
+  intros x y Hx Hy H1 H2. unfold le in *.
+  apply (nodup_map_inj uid_of l); try assumption. apply entry_total; assumption.
+Qed.
+
+(** ** the phases commute with permutations of the queue list *)
+Lemma sum_pos k W qs :
+  qeqb (share_weights_sum k W qs) 0 = false -> 0 < share_weights_sum k W qs.
+Proof.
+  intros Hs. apply qeqb_false in Hs. pose proof (share_weights_sum_eq k W qs) as E.
+  pose proof (wsum_le_ssum k W qs). pose proof (wsum_nonneg k W qs).
+  assert (H1 : 0 <= share_weights_sum k W qs) by lra.
+  apply Qle_lt_or_eq in H1. destruct H1 as [H1|H1]; [exact H1|]. exfalso. apply Hs. lra.
+Qed.
+
+Lemma inv_initial k W qs total :
+  0 <= total -> total * wsum k W qs <= total * share_weights_sum k W qs.
+Proof.
+  intros Ht. pose proof (share_weights_sum_eq k W qs) as E. pose proof (wsum_le_ssum k W qs).
+  assert (0 <= total * (share_weights_sum k W qs - wsum k W qs)) by (apply Qmult_le_0_compat; lra).
+  lra.
+Qed.
+
+Lemma divide_up_to_perm k : forall fuel b b' total,
+  Permutation b b' -> 0 <= total ->
+  match divide_up_to fuel k b total, divide_up_to fuel k b' total with
+  | Done (o, t), Done (o', t') => Permutation o o' /\ t = t'
+  | OutOfFuel, OutOfFuel => True
+  | _, _ => False
+  end.
+Proof.
+  induction fuel as [|f IH]; intros b b' total P Ht; cbn [divide_up_to]; [exact I|].
+  rewrite <- (total_weights_perm b b' P).
+  destruct (qeqb (total_weights b) 0); [split; [exact P|reflexivity]|].
+  set (W := total_weights b).
+  rewrite <- (share_weights_sum_perm k W b b' P).
+  destruct (qeqb (share_weights_sum k W b) 0) eqn:Hs; [split; [exact P|reflexivity]|].
+  pose proof (sum_pos k W b Hs) as Hsum.
+  set (sum := share_weights_sum k W b) in *.
+  destruct (round_queues total k W sum b total false) as [[o t] a] eqn:R1.
+  destruct (round_queues total k W sum b' total false) as [[o' t'] a'] eqn:R2.
+  pose proof (round_spec total k W sum Ht Hsum _ _ _ _ _ _ R1 (inv_initial k W b total Ht))
+    as [_ [_ [Ht1 _]]].
+  rewrite (round_decl_eq total k W sum Ht Hsum) in R1 by (apply inv_initial; exact Ht).
+  rewrite (round_decl_eq total k W sum Ht Hsum) in R2.
+  2:{ unfold sum. rewrite (share_weights_sum_perm k W b b' P). apply inv_initial. exact Ht. }
+  pose proof (round_decl_perm total k W sum b b' total false P) as H.
+  rewrite R1, R2 in H. destruct H as [Po [-> ->]].
+  destruct (negb a' || qeqb t' 0); [split; [exact Po|reflexivity]|].
+  apply IH; assumption.
+Qed.
+
+Lemma band_perm p qs qs' : Permutation qs qs' -> Permutation (band p qs) (band p qs').
+Proof. intros P. unfold band. apply Permutation_map, filter_perm. exact P. Qed.
+
+Lemma run_bands_perm k qs qs' : Permutation qs qs' -> forall ps total,
+  0 <= total ->
+  match run_bands k ps qs total, run_bands k ps qs' total with
+  | Done (bs, t), Done (bs', t') => Forall2 (@Permutation rq) bs bs' /\ t = t'
+  | OutOfFuel, OutOfFuel => True
+  | _, _ => False
+  end.
+Proof.
+  intros P. induction ps as [|p r IH]; intros total Ht; cbn [run_bands].
+  - split; [constructor|reflexivity].
+  - pose proof (band_perm p qs qs' P) as Pb.
+    rewrite <- (Permutation_length Pb).
+    pose proof (divide_up_to_perm k (S (length (band p qs))) _ _ total Pb Ht) as H.
+    pose proof (divide_up_to_spec k (S (length (band p qs))) (band p qs) total Ht) as Hs.
+    destruct (divide_up_to (S (length (band p qs))) k (band p qs) total) as [[b1 t1]|];
+      destruct (divide_up_to (S (length (band p qs))) k (band p qs') total) as [[b1' t1']|];
+      try contradiction; [|exact I].
+    destruct H as [Pb1 <-]. destruct Hs as [_ [_ Ht1]].
+    specialize (IH t1 Ht1).
+    destruct (run_bands k r qs t1) as [[bs t]|]; destruct (run_bands k r qs' t1) as [[bs' t']|];
+      try contradiction; [|exact I].
+    destruct IH as [F <-]. split; [constructor; assumption|reflexivity].
+Qed.
+
+Lemma nodup_app_inv {A} (l l' : list A) : NoDup (l ++ l') -> NoDup l /\ NoDup l'.
+Proof.
+  induction l as [|a l IH]; cbn [app]; intros H; [split; [constructor|exact H]|].
+  inversion H as [|? ? Hn ND]. subst. destruct (IH ND) as [H1 H2].
+  split; [|exact H2]. constructor; [|exact H1]. intros Hin. apply Hn. apply in_or_app. left. exact Hin.
+Qed.
+
+Lemma hand_out_bands_perm : forall bs bs' total,
+  Forall2 (@Permutation rq) bs bs' -> NoDup (map uid_of (concat bs)) ->
+  let '(o, t) := hand_out_bands bs total in
+  let '(o', t') := hand_out_bands bs' total in
+  Forall2 (@Permutation rq) o o' /\ t = t'.
+Proof.
+  induction bs as [|b r IH]; intros bs' total F ND; inversion F as [|? b' ? r' Pb Fr]; subst.
+  - cbn. split; [constructor|reflexivity].
+  - cbn [hand_out_bands]. destruct (qleb total 0); [split; [exact F|reflexivity]|].
+    cbn [concat] in ND. rewrite map_app in ND.
+    destruct (nodup_app_inv _ _ ND) as [NDb NDr].
+    rewrite <- (existsb_perm has_entry b b' Pb).
+    destruct (negb (existsb has_entry b)).
+    + specialize (IH r' total Fr NDr).
+      destruct (hand_out_bands r total) as [o t]. destruct (hand_out_bands r' total) as [o' t'].
+      destruct IH as [Fo <-]. split; [constructor; assumption|reflexivity].
+    + unfold divide_remaining.
+      rewrite <- (sort_entries_perm_eq (filter has_entry b) (filter has_entry b')).
+      2:{ clear -NDb. induction b as [|x b IHb]; cbn [filter map]; [constructor|].
+          cbn [map] in NDb. inversion NDb as [|? ? Hn ND']. subst.
+          destruct (has_entry x); cbn [map]; [|apply IHb; exact ND'].
+          constructor; [|apply IHb; exact ND']. intros Hin. apply Hn.
+          apply in_map_iff in Hin as [y [Ey Hy]]. apply filter_In in Hy as [Hy _].
+          rewrite <- Ey. apply in_map. exact Hy. }
+      2:{ apply filter_perm. exact Pb. }
+      destruct (hand_out (sort_entries (filter has_entry b)) total) as [es t1].
+      specialize (IH r' t1 Fr NDr).
+      destruct (hand_out_bands r t1) as [o t]. destruct (hand_out_bands r' t1) as [o' t'].
+      destruct IH as [Fo <-]. split; [|reflexivity].
+      constructor; [|exact Fo]. apply Permutation_app_head. apply filter_perm. exact Pb.
+Qed.
+
+Lemma concat_perm {A} (l l' : list (list A)) :
+  Forall2 (@Permutation A) l l' -> Permutation (concat l) (concat l').
+Proof. induction 1; cbn [concat]; [constructor|apply Permutation_app; assumption]. Qed.
+
+(** ** priorities: a strictly descending list is determined by its set of elements *)
+Lemma sorted_set_eq l : forall l',
+  StronglySorted zgt l -> StronglySorted zgt l' -> (forall z, In z l <-> In z l') -> l = l'.
+Proof.
+  induction l as [|a l IH]; intros l' S S' E.
+  - destruct l' as [|b l']; [reflexivity|]. exfalso. apply (proj2 (E b)). left. reflexivity.
+  - destruct l' as [|b l']; [exfalso; apply (proj1 (E a)); left; reflexivity|].
+    inversion S as [|? ? S1 F1]. inversion S' as [|? ? S1' F1']. subst.
+    rewrite Forall_forall in F1, F1'. unfold zgt in F1, F1'.
+    assert (a = b).
+    { destruct (proj1 (E a) (or_introl eq_refl)) as [<-|Ha]; [reflexivity|].
+      destruct (proj2 (E b) (or_introl eq_refl)) as [<-|Hb]; [reflexivity|].
+      specialize (F1 b Hb). specialize (F1' a Ha). lia. }
+    subst b. f_equal. apply IH; try assumption. intros z. split; intros Hz.
+    + destruct (proj1 (E z) (or_intror Hz)) as [<-|H]; [|exact H]. specialize (F1 a Hz). lia.
+    + destruct (proj2 (E z) (or_intror Hz)) as [<-|H]; [|exact H]. specialize (F1' a Hz). lia.
+Qed.
+
+Lemma priorities_in_inv qs p : In p (priorities qs) -> exists q, In q qs /\ q_prio q = p.
+Proof.
+  induction qs as [|a l IH]; cbn [priorities fold_right]; [intros []|].
+  fold (priorities l). intros H. apply insert_prio_in in H. destruct H as [->|H].
+  - exists a. split; [left; reflexivity|reflexivity].
+  - destruct (IH H) as [q [Hq E]]. exists q. split; [right; exact Hq|exact E].
+Qed.
+
+Lemma priorities_perm qs qs' : Permutation qs qs' -> priorities qs = priorities qs'.
+Proof.
+  intros P. apply sorted_set_eq; try apply priorities_sorted.
+  intros z. split; intros H; apply priorities_in_inv in H as [q [Hq <-]]; apply priorities_in.
+  - apply (Permutation_in _ P). exact Hq.
+  - apply (Permutation_in _ (Permutation_sym P)). exact Hq.
+Qed.
+
+(** ** the whole division *)
+Definition amt (T : Q) (q : queue) : Q :=
+  qmin (if qeqb (q_deserved q) unlimited then T else q_deserved q) (requestable q).
+
+Lemma set_deserved_closed T : forall qs rem,
+  set_deserved T rem qs
+  = (map (fun q => add_share q (amt T q)) qs, fold_left (fun r q => qsub r (amt T q)) qs rem).
+Proof.
+  induction qs as [|q l IH]; intros rem; cbn [set_deserved map fold_left]; [reflexivity|].
+  fold (amt T q). rewrite IH. reflexivity.
+Qed.
+
+Lemma uid_of_sf l : map uid_of l = map q_uid (map sf l).
+Proof. rewrite map_map. reflexivity. Qed.
+
+Theorem order_independent T k qs qs' out rem out' rem' :
+  Permutation qs qs' -> NoDup (map q_uid qs) ->
+  set_resource_share T k qs = Done (out, rem) ->
+  set_resource_share T k qs' = Done (out', rem') ->
+  Permutation out out' /\ rem = rem'.
+Proof.
+  intros P ND. unfold set_resource_share. rewrite !set_deserved_closed.
+  set (qs1 := map (fun q => add_share q (amt T q)) qs).
+  set (qs1' := map (fun q => add_share q (amt T q)) qs').
+  assert (P1 : Permutation qs1 qs1') by (apply Permutation_map; exact P).
+  rewrite <- (fold_left_perm (fun r q => qsub r (amt T q)) (fun b x y => qsub_swap b _ _) qs qs' P).
+  set (rem0 := fold_left (fun r q => qsub r (amt T q)) qs T).
+  destruct (qltb 0 rem0) eqn:Hrem.
+  2:{ intros H1 H2. inversion H1. inversion H2. subst. split; [exact P1|reflexivity]. }
+  apply qltb_iff in Hrem. assert (Hr0 : 0 <= rem0) by lra.
+  unfold divide_over_quota. rewrite <- (priorities_perm qs1 qs1' P1).
+  pose proof (run_bands_perm k qs1 qs1' P1 (priorities qs1) rem0 Hr0) as HB.
+  pose proof (run_bands_spec k qs1 (priorities qs1) rem0 Hr0) as HS.
+  destruct (run_bands k (priorities qs1) qs1 rem0) as [[bs t]|]; [|contradiction].
+  destruct (run_bands k (priorities qs1) qs1' rem0) as [[bs' t']|]; [|contradiction].
+  destruct HB as [F <-]. destruct HS as [S1 _].
+  assert (NDb : NoDup (map uid_of (concat bs))).
+  { rewrite uid_of_sf. rewrite <- (evolves_sf _ _ S1). rewrite bands_concat.
+    rewrite map_map. unfold sf. cbn [fst].
+    eapply Permutation_NoDup.
+    - symmetry. apply Permutation_map. apply Permutation_map. apply bands_perm.
+    - unfold qs1. rewrite !map_map. cbn. exact ND. }
+  pose proof (hand_out_bands_perm bs bs' t F NDb) as HH.
+  destruct (hand_out_bands bs t) as [o t1]. destruct (hand_out_bands bs' t) as [o' t1'].
+  destruct HH as [Fo <-].
+  intros H1 H2. inversion H1. inversion H2. subst. split; [|reflexivity].
+  apply Permutation_map. apply concat_perm. exact Fo.
+Qed.
+
+Lemma fair_of_perm u l l' :
+  NoDup (map q_uid l) -> Permutation l l' -> fair_of u l = fair_of u l'.
+Proof.
+  intros ND P. induction P as [|x l l' P IH|x y l|l l' l'' P1 IH1 P2 IH2].
+  - reflexivity.
+  - cbn [fair_of]. destruct (q_uid x =? u)%positive; [reflexivity|].
+    apply IH. cbn [map] in ND. inversion ND. assumption.
+  - cbn [fair_of]. cbn [map] in ND. inversion ND as [|? ? Hn _]. subst.
+    destruct (q_uid y =? u)%positive eqn:Ey; destruct (q_uid x =? u)%positive eqn:Ex; try reflexivity.
+    apply Pos.eqb_eq in Ey, Ex. exfalso. apply Hn. left. congruence.
+  - rewrite IH1 by exact ND. apply IH2.
+    eapply Permutation_NoDup; [|exact ND]. apply Permutation_map. exact P1.
+Qed.
+
+Lemma uid_static l : map q_uid (map static l) = map q_uid l.
+Proof. rewrite map_map. reflexivity. Qed.
+
+(** the result as a map UID -> fair share does not depend on the enumeration order *)
+Theorem order_independent_map T k qs qs' out rem out' rem' :
+  Permutation qs qs' -> NoDup (map q_uid qs) ->
+  set_resource_share T k qs = Done (out, rem) ->
+  set_resource_share T k qs' = Done (out', rem') ->
+  (forall u, fair_of u out = fair_of u out') /\ rem = rem'.
+Proof.
+  intros P ND H1 H2. destruct (order_independent _ _ _ _ _ _ _ _ P ND H1 H2) as [Po E].
+  split; [|exact E]. intros u. apply fair_of_perm; [|exact Po].
+  pose proof (same_queues _ _ _ _ _ H1) as Ps.
+  rewrite <- uid_static. eapply Permutation_NoDup.
+  - symmetry. apply Permutation_map. exact Ps.
+  - rewrite uid_static. exact ND.
+Qed.
+
+Theorem order_independent_full T k qs qs' out out' rem rem' :
+  Permutation qs qs' -> NoDup (map q_uid qs) ->
+  set_resource_share T k qs = Done (out, rem) ->
+  set_resource_share T k qs' = Done (out', rem') ->
+  Permutation out out' /\ (forall u, fair_of u out = fair_of u out') /\ rem = rem'.
+Proof.
+  intros P ND H1 H2. split; [|split].
+  - exact (proj1 (order_independent _ _ _ _ _ _ _ _ P ND H1 H2)).
+  - exact (proj1 (order_independent_map _ _ _ _ _ _ _ _ P ND H1 H2)).
+  - exact (proj2 (order_independent _ _ _ _ _ _ _ _ P ND H1 H2)).
+Qed.
+
+(** * Weight monotonicity (clause 7) *)
+Definition sit (q q' : queue) : Prop :=
+  q_prio q = q_prio q' /\ q_deserved q == q_deserved q' /\ q_limit q == q_limit q'
+  /\ q_request q == q_request q' /\ q_usage q == q_usage q'.
+
+Lemma same_situation_sit q q' : same_situation q q' = true -> sit q q'.
+Proof.
+  unfold same_situation, sit. rewrite !andb_true_iff.
+  intros [[[[H1 H2] H3] H4] H5]. apply Z.eqb_eq in H1.
+  apply Qeq_bool_iff in H2, H3, H4, H5. auto.
+Qed.
+
+Lemma sit_requestable q q' : sit q q' -> requestable q == requestable q'.
+Proof.
+  intros [_ [_ [Hl [Hr _]]]]. unfold requestable, qeqb.
+  destruct (Qeq_bool (q_limit q) unlimited) eqn:E1; destruct (Qeq_bool (q_limit q') unlimited) eqn:E2.
+  - exact Hr.
+  - apply Qeq_bool_iff in E1. exfalso. apply Qeq_bool_neq in E2. apply E2. rewrite <- Hl. exact E1.
+  - apply Qeq_bool_iff in E2. exfalso. apply Qeq_bool_neq in E1. apply E1. rewrite Hl. exact E2.
+  - rewrite !qmin_Qmin. rewrite Hl, Hr. reflexivity.
+Qed.
+
+Lemma lt_requestable_unsat q : q_fair q < requestable q -> satisfied q = false.
+Proof.
+  intros H. destruct (satisfied q) eqn:E; [|reflexivity]. apply sat_ge in E. lra.
+Qed.
+
+Lemma qmax0_mono a b : a <= b -> qmax 0 a <= qmax 0 b.
+Proof.
+  intros H. unfold qmax. destruct (qleb 0 a) eqn:E1; destruct (qleb 0 b) eqn:E2;
+    try apply qleb_iff in E1; try apply qleb_iff in E2;
+    try apply qleb_false in E1; try apply qleb_false in E2; lra.
+Qed.
+
+Lemma share_weight_mono k W q q' :
+  0 <= k -> 0 < W -> q_weight q <= q_weight q' -> q_usage q == q_usage q' ->
+  share_weight k W q <= share_weight k W q'.
+Proof.
+  intros Hk HW Hw Hu. unfold share_weight. apply qmax0_mono.
+  rewrite !qadd_eq, !qmul_eq, !qsub_eq, !qdiv_eq.
+  assert (Hd : q_weight q / W <= q_weight q' / W).
+  { unfold Qdiv. apply Qmult_le_compat_r; [exact Hw|]. apply Qlt_le_weak, Qinv_lt_0_compat. exact HW. }
+  rewrite Hu. set (a := q_weight q / W) in *. set (b := q_weight q' / W) in *.
+  assert (0 <= k * (b - a)) by (apply Qmult_le_0_compat; lra). lra.
+Qed.
+
+Definition floorp (x : Q) : Q := if qltb 0 (qfloor x) then qfloor x else 0.
+Lemma floorp_mono a b : a <= b -> floorp a <= floorp b.
+Proof.
+  intros H. unfold floorp.
+  assert (Hf : qfloor a <= qfloor b).
+  { unfold qfloor. rewrite <- Zle_Qle. apply Qfloor_resp_le. exact H. }
+  destruct (qltb 0 (qfloor a)) eqn:E1; destruct (qltb 0 (qfloor b)) eqn:E2;
+    try apply qltb_iff in E1; try apply qltb_iff in E2;
+    try apply qltb_false in E1; try apply qltb_false in E2; lra.
+Qed.
+
+Lemma give_fst fs req e :
+  fst (give_in_round fs req e) = if qleb req fs then req else floorp fs.
+Proof. unfold give_in_round, floorp. destruct (qleb req fs); reflexivity. Qed.
+
+Section Mono.
+Variables amount k W sum : Q.
+Hypothesis Hamount : 0 <= amount.
+Hypothesis Hk : 0 <= k.
+Hypothesis HW : 0 < W.
+Hypothesis Hsum : 0 < sum.
+
+(** fair share after a visit, in closed form *)
+Lemma visit_out_fair x :
+  q_fair (fst (visit_out amount k W sum x)) ==
+  q_fair (fst x) +
+  (if satisfied (fst x) then 0
+   else if qeqb (q_weight (fst x)) 0 then 0
+   else fst (give_in_round (qmul amount (qdiv (share_weight k W (fst x)) sum))
+                           (remaining_requested (fst x)) (snd x))).
+Proof.
+  destruct x as [q e]. unfold visit_out, visit. cbn [fst snd].
+  destruct (satisfied q); cbn [fst]; [lra|].
+  destruct (qeqb (q_weight q) 0); cbn [fst]; [lra|].
+  destruct (give_in_round _ _ e) as [g e'] eqn:Hg. cbn [fst].
+  destruct (qeqb g 0) eqn:Hg0; cbn [fst].
+  - apply qeqb_iff in Hg0. lra.
+  - apply fair_add.
+Qed.
+
+Lemma visit_mono x y :
+  sit (fst x) (fst y) -> 0 <= q_weight (fst x) -> q_weight (fst x) <= q_weight (fst y) ->
+  q_fair (fst x) <= requestable (fst x) ->
+  q_fair (fst x) <= q_fair (fst y) ->
+  q_fair (fst (visit_out amount k W sum x)) <= q_fair (fst (visit_out amount k W sum y)).
+Proof.
+  intros Hs Hw0 Hw Hub Hf. rewrite !visit_out_fair.
+  pose proof (sit_requestable _ _ Hs) as HR.
+  destruct Hs as [_ [_ [_ [_ Hu]]]].
+  destruct x as [q e], y as [q' e']. cbn [fst snd] in *.
+  set (fs := qmul amount (qdiv (share_weight k W q) sum)).
+  set (fs' := qmul amount (qdiv (share_weight k W q') sum)).
+  pose proof (fs_facts amount sum Hamount Hsum _ (share_weight_nonneg k W q)) as [Hfs0 Hfs].
+  pose proof (fs_facts amount sum Hamount Hsum _ (share_weight_nonneg k W q')) as [Hfs0' Hfs'].
+  fold fs in Hfs0, Hfs. fold fs' in Hfs0', Hfs'.
+  assert (Hle : fs <= fs').
+  { pose proof (share_weight_mono k W q q' Hk HW Hw Hu) as Hm.
+    assert (0 <= amount * (share_weight k W q' - share_weight k W q))
+      by (apply Qmult_le_0_compat; lra).
+    apply (Qmult_le_r _ _ sum Hsum). lra. }
+  assert (Hgle : forall (qq : queue) (ee : option Q) (ff : Q), 0 <= ff -> satisfied qq = false ->
+            0 <= fst (give_in_round ff (remaining_requested qq) ee)
+            /\ q_fair qq + fst (give_in_round ff (remaining_requested qq) ee) <= requestable qq).
+  { intros qq ee ff Hff Hun. rewrite give_fst. destruct (remaining_unsat qq Hun) as [Hr Hr0].
+    destruct (qleb (remaining_requested qq) ff) eqn:E.
+    - split; lra.
+    - apply qleb_false in E. unfold floorp.
+      pose proof (qfloor_le ff).
+      destruct (qltb 0 (qfloor ff)) eqn:E2; [apply qltb_iff in E2|]; split; lra. }
+  destruct (satisfied q') eqn:S'.
+  - apply sat_ge in S'. destruct (satisfied q) eqn:S; [lra|].
+    destruct (qeqb (q_weight q) 0); [lra|].
+    destruct (Hgle q e fs Hfs0 S) as [_ H2]. lra.
+  - pose proof (unsat_lt q' S') as Hlt'.
+    assert (S : satisfied q = false) by (apply lt_requestable_unsat; lra).
+    rewrite S.
+    destruct (qeqb (q_weight q') 0) eqn:Ew'.
+    { apply qeqb_iff in Ew'. assert (Ew : qeqb (q_weight q) 0 = true) by (apply qeqb_iff; lra).
+      rewrite Ew. lra. }
+    destruct (Hgle q' e' fs' Hfs0' S') as [G0' _].
+    destruct (qeqb (q_weight q) 0); [lra|].
+    destruct (remaining_unsat q S) as [Hr Hr0]. destruct (remaining_unsat q' S') as [Hr' Hr0'].
+    destruct (Hgle q e fs Hfs0 S) as [_ G1].
+    rewrite !give_fst in *.
+    destruct (qleb (remaining_requested q') fs') eqn:E'.
+    + lra.
+    + apply qleb_false in E'.
+      assert (E : qleb (remaining_requested q) fs = false) by (apply qleb_false; lra).
+      rewrite E. pose proof (floorp_mono fs fs' Hle). lra.
+Qed.
+End Mono.
+
+Definition PW (b : list rq) : Prop :=
+  forall x y, In x b -> In y b -> sit (fst x) (fst y) ->
+              q_weight (fst x) <= q_weight (fst y) -> q_fair (fst x) <= q_fair (fst y).
+Definition WFb (b : list rq) : Prop :=
+  Forall (fun x => 0 <= q_weight (fst x) /\ UB x) b.
+
+Lemma static_fields a b : static a = static b ->
+  q_uid a = q_uid b /\ q_prio a = q_prio b /\ q_deserved a = q_deserved b /\ q_limit a = q_limit b
+  /\ q_weight a = q_weight b /\ q_request a = q_request b /\ q_usage a = q_usage b.
+Proof. unfold static. intros H. injection H. intros. repeat split; assumption. Qed.
+
+Lemma sit_static a a' b b' : static a' = static a -> static b' = static b -> sit a' b' -> sit a b.
+Proof.
+  intros Ha Hb. apply static_fields in Ha, Hb.
+  destruct Ha as [_ [A1 [A2 [A3 [_ [A5 A6]]]]]]. destruct Hb as [_ [B1 [B2 [B3 [_ [B5 B6]]]]]].
+  unfold sit. rewrite A1, A2, A3, A5, A6, B1, B2, B3, B5, B6. auto.
+Qed.
+
+Definition twsum (b : list rq) : Q :=
+  fold_right (fun x a => (if qltb 0 (remaining_requested (fst x)) then q_weight (fst x) else 0) + a) 0 b.
+Lemma total_weights_acc b : forall acc,
+  fold_left (fun acc (x : rq) =>
+               if qltb 0 (remaining_requested (fst x)) then qadd acc (q_weight (fst x)) else acc) b acc
+  == acc + twsum b.
+Proof.
+  induction b as [|x b IH]; intros acc; cbn [fold_left twsum fold_right]; [lra|].
+  fold (twsum b). rewrite IH. destruct (qltb 0 (remaining_requested (fst x))); [rewrite qadd_eq|]; lra.
+Qed.
+Lemma total_weights_nonneg b : Forall (fun x => 0 <= q_weight (fst x)) b -> 0 <= total_weights b.
+Proof.
+  intros H. unfold total_weights. rewrite total_weights_acc.
+  assert (0 <= twsum b); [|lra].
+  induction H as [|x b Hx HF IH]; cbn [twsum fold_right]; [lra|]. fold (twsum b).
+  destruct (qltb 0 (remaining_requested (fst x))); lra.
+Qed.
+
+Lemma WFb_weights b : WFb b -> Forall (fun x => 0 <= q_weight (fst x)) b.
+Proof. intros H. eapply Forall_impl; [|exact H]. cbn. tauto. Qed.
+
+Section RoundPW.
+Variables amount k W sum : Q.
+Hypothesis Hamount : 0 <= amount.
+Hypothesis Hk : 0 <= k.
+Hypothesis HW : 0 < W.
+Hypothesis Hsum : 0 < sum.
+
+Lemma round_PW b : PW b -> WFb b ->
+  PW (map (visit_out amount k W sum) b) /\ WFb (map (visit_out amount k W sum) b).
+Proof.
+  intros HP HWF. unfold WFb in HWF. rewrite Forall_forall in HWF. split.
+  - intros x1 y1 Hx Hy Hs Hw.
+    apply in_map_iff in Hx as [x [<- Hx]]. apply in_map_iff in Hy as [y [<- Hy]].
+    destruct (visit amount k W sum x) as [[x1 gx] ax] eqn:Vx.
+    destruct (visit amount k W sum y) as [[y1 gy] ay] eqn:Vy.
+    pose proof (visit_spec amount k W sum Hamount Hsum _ _ _ _ Vx) as [Sx _].
+    pose proof (visit_spec amount k W sum Hamount Hsum _ _ _ _ Vy) as [Sy _].
+    assert (Ex : visit_out amount k W sum x = x1) by (unfold visit_out; rewrite Vx; reflexivity).
+    assert (Ey : visit_out amount k W sum y = y1) by (unfold visit_out; rewrite Vy; reflexivity).
+    rewrite Ex, Ey in Hs, Hw.
+    pose proof (sit_static _ _ _ _ Sx Sy Hs) as Hs0.
+    destruct (static_fields _ _ Sx) as [_ [_ [_ [_ [Wx _]]]]].
+    destruct (static_fields _ _ Sy) as [_ [_ [_ [_ [Wy _]]]]].
+    rewrite Wx, Wy in Hw.
+    destruct (HWF x Hx) as [Hw0 [Hub _]].
+    apply (visit_mono amount k W sum Hamount Hk HW Hsum x y Hs0 Hw0 Hw Hub).
+    apply HP; assumption.
+  - unfold WFb. apply Forall_forall. intros x1 Hx. apply in_map_iff in Hx as [x [<- Hx]].
+    destruct (visit amount k W sum x) as [[x1 gx] ax] eqn:Vx.
+    pose proof (visit_spec amount k W sum Hamount Hsum _ _ _ _ Vx) as [Sx [_ [_ [_ [_ [_ [_ U]]]]]]].
+    unfold visit_out. rewrite Vx. cbn [fst].
+    destruct (static_fields _ _ Sx) as [_ [_ [_ [_ [Wx _]]]]]. rewrite Wx.
+    destruct (HWF x Hx) as [Hw0 Hub]. split; [exact Hw0|apply U; exact Hub].
+Qed.
+End RoundPW.
+
+Lemma divide_up_to_PW k : 0 <= k -> forall fuel b total o t,
+  0 <= total -> PW b -> WFb b ->
+  divide_up_to fuel k b total = Done (o, t) -> PW o /\ WFb o.
+Proof.
+  intros Hk. induction fuel as [|f IH]; intros b total o t Ht HP HWF; cbn [divide_up_to]; [discriminate|].
+  destruct (qeqb (total_weights b) 0) eqn:EW.
+  { intros H. inversion H. subst. auto. }
+  assert (HW : 0 < total_weights b).
+  { pose proof (total_weights_nonneg b (WFb_weights b HWF)) as H0. apply qeqb_false in EW.
+    apply Qle_lt_or_eq in H0. destruct H0 as [H0|H0]; [exact H0|]. exfalso. apply EW. lra. }
+  set (W := total_weights b) in *.
+  destruct (qeqb (share_weights_sum k W b) 0) eqn:Hs.
+  { intros H. inversion H. subst. auto. }
+  pose proof (sum_pos k W b Hs) as Hsum. set (sum := share_weights_sum k W b) in *.
+  destruct (round_queues total k W sum b total false) as [[o1 t1] a1] eqn:R1.
+  pose proof (round_spec total k W sum Ht Hsum _ _ _ _ _ _ R1 (inv_initial k W b total Ht))
+    as [_ [_ [Ht1 _]]].
+  rewrite (round_decl_eq total k W sum Ht Hsum) in R1 by (apply inv_initial; exact Ht).
+  unfold round_decl in R1.
+  assert (Eo : o1 = map (visit_out total k W sum) b) by (inversion R1; reflexivity).
+  destruct (round_PW total k W sum Ht Hk HW Hsum b HP HWF) as [HP1 HWF1].
+  rewrite <- Eo in HP1, HWF1.
+  destruct (negb a1 || qeqb t1 0).
+  { intros H. inversion H. subst. split; assumption. }
+  intros H. eapply IH; [exact Ht1|exact HP1|exact HWF1|exact H].
+Qed.
+
+Definition band_ok (p : Z) (b : list rq) : Prop :=
+  (forall x, In x b -> q_prio (fst x) = p) /\ PW b /\ WFb b.
+
+Lemma run_bands_PW k qs : 0 <= k -> (forall p, band_ok p (band p qs)) ->
+  forall ps total bs t, 0 <= total ->
+  run_bands k ps qs total = Done (bs, t) -> Forall2 band_ok ps bs.
+Proof.
+  intros Hk H0. induction ps as [|p r IH]; intros total bs t Ht; cbn [run_bands].
+  - intros H. inversion H. constructor.
+  - pose proof (divide_up_to_spec k (S (length (band p qs))) (band p qs) total Ht) as HS.
+    destruct (divide_up_to (S (length (band p qs))) k (band p qs) total) as [[b1 t1]|] eqn:D; [|discriminate].
+    destruct HS as [E [_ Ht1]].
+    destruct (run_bands k r qs t1) as [[bs1 t2]|] eqn:R; [|discriminate].
+    intros H. inversion H. subst. constructor; [|eapply IH; eassumption].
+    destruct (H0 p) as [Hp [HP HWF]].
+    destruct (divide_up_to_PW k Hk _ _ _ _ _ Ht HP HWF D) as [HP1 HWF1].
+    split; [|split; assumption].
+    intros x1 Hx1. destruct (Forall2_in_r _ _ _ _ E Hx1) as [x [Hx [S _]]].
+    apply static_fields in S. destruct S as [_ [S _]]. rewrite S. apply Hp. exact Hx.
+Qed.
+
+Lemma bands_prio ps bs : Forall2 band_ok ps bs -> forall y, In y (concat bs) -> In (q_prio (fst y)) ps.
+Proof.
+  induction 1 as [|p b ps bs [Hp _] HF IH]; cbn [concat]; [intros y []|].
+  intros y Hy. apply in_app_or in Hy as [Hy|Hy]; [left; symmetry; apply Hp; exact Hy|right; apply IH; exact Hy].
+Qed.
+
+Lemma bands_PW_all ps bs : NoDup ps -> Forall2 band_ok ps bs -> PW (concat bs).
+Proof.
+  intros ND F. induction F as [|p b ps bs [Hp [HP _]] HF IH]; [intros x y []|].
+  inversion ND as [|? ? Hn ND']. subst. specialize (IH ND').
+  intros x y Hx Hy Hs Hw. cbn [concat] in Hx, Hy.
+  apply in_app_or in Hx. apply in_app_or in Hy.
+  destruct Hx as [Hx|Hx], Hy as [Hy|Hy].
+  - apply HP; assumption.
+  - exfalso. apply Hn. destruct Hs as [Hs _]. rewrite <- (Hp x Hx), Hs.
+    apply (bands_prio _ _ HF). exact Hy.
+  - exfalso. apply Hn. destruct Hs as [Hs _]. rewrite <- (Hp y Hy), <- Hs.
+    apply (bands_prio _ _ HF). exact Hx.
+  - apply IH; assumption.
+Qed.
+
+Lemma sit_phase1 T q q' : sit q q' -> phase1 T q == phase1 T q'.
+Proof.
+  intros Hs. pose proof (sit_requestable _ _ Hs) as HR.
+  destruct Hs as [_ [Hd _]]. unfold phase1. rewrite !cap_requestable, HR.
+  assert (E : eff_deserved T q == eff_deserved T q').
+  { unfold eff_deserved.
+    destruct (Qeq_bool (q_deserved q) unlimited) eqn:E1; destruct (Qeq_bool (q_deserved q') unlimited) eqn:E2.
+    - reflexivity.
+    - apply Qeq_bool_iff in E1. exfalso. apply Qeq_bool_neq in E2. apply E2. rewrite <- Hd. exact E1.
+    - apply Qeq_bool_iff in E2. exfalso. apply Qeq_bool_neq in E1. apply E1. rewrite Hd. exact E2.
+    - exact Hd. }
+  rewrite E. reflexivity.
+Qed.
+
+Theorem weight_monotone T k qs out rem :
+  fresh qs -> 0 <= k -> Forall (fun q => 0 <= q_weight q) qs ->
+  set_resource_share T k qs = Done (out, rem) ->
+  forall q1 q2, In q1 out -> In q2 out -> same_situation q1 q2 = true ->
+                q_weight q1 <= q_weight q2 -> q_fair q1 <= q_fair q2 + 1.
+Proof.
+  intros HF Hk HWq. unfold set_resource_share.
+  destruct (set_deserved T T qs) as [qs1 rem0] eqn:Hd.
+  apply set_deserved_spec in Hd. destruct Hd as [D1 _].
+  unfold fresh in HF. rewrite Forall_forall in HF, HWq.
+  (* after the in-quota phase, queues in the same situation have the same fair share *)
+  assert (Hq1 : forall a, In a qs1 ->
+            0 <= q_weight a /\ q_fair a <= requestable a /\
+            forall b, In b qs1 -> sit a b -> q_fair a == q_fair b).
+  { intros a Ha. destruct (Forall2_in_r _ _ _ _ D1 Ha) as [a0 [Ha0 [Sa Fa]]].
+    pose proof (HF a0 Ha0) as Fa0. destruct (static_fields _ _ Sa) as [_ [_ [_ [_ [Wa _]]]]].
+    split; [rewrite Wa; apply HWq; exact Ha0|]. split.
+    { rewrite (static_requestable _ _ Sa). pose proof (phase1_le_requestable T a0). lra. }
+    intros b Hb Hs. destruct (Forall2_in_r _ _ _ _ D1 Hb) as [b0 [Hb0 [Sb Fb]]].
+    pose proof (HF b0 Hb0) as Fb0.
+    pose proof (sit_phase1 T a0 b0 (sit_static _ _ _ _ Sa Sb Hs)). lra. }
+  destruct (qltb 0 rem0) eqn:Hrem.
+  2:{ intros H. inversion H. subst. intros q1 q2 H1 H2 Hs _.
+      destruct (Hq1 q1 H1) as [_ [_ E]]. rewrite (E q2 H2 (same_situation_sit _ _ Hs)). lra. }
+  apply qltb_iff in Hrem. unfold divide_over_quota.
+  pose proof (run_bands_spec k qs1 (priorities qs1) rem0 (Qlt_le_weak _ _ Hrem)) as HB.
+  destruct (run_bands k (priorities qs1) qs1 rem0) as [[bs t]|] eqn:RB; [|contradiction].
+  destruct HB as [_ [_ B3]].
+  assert (Hok : forall p, band_ok p (band p qs1)).
+  { intros p. unfold band. split; [|split].
+    - intros x Hx. apply in_map_iff in Hx as [q [<- Hq]]. apply filter_In in Hq as [_ Hq].
+      apply Z.eqb_eq in Hq. exact Hq.
+    - intros x y Hx Hy Hs _. apply in_map_iff in Hx as [a [<- Ha]]. apply in_map_iff in Hy as [b [<- Hb]].
+      apply filter_In in Ha as [Ha _]. apply filter_In in Hb as [Hb _]. cbn [fst] in *.
+      destruct (Hq1 a Ha) as [_ [_ E]]. rewrite (E b Hb Hs). lra.
+    - unfold WFb. apply Forall_forall. intros x Hx. apply in_map_iff in Hx as [a [<- Ha]].
+      apply filter_In in Ha as [Ha _]. destruct (Hq1 a Ha) as [W0 [U _]]. cbn [fst].
+      split; [exact W0|]. split; [exact U|]. cbn. discriminate. }
+  pose proof (run_bands_PW k qs1 Hk Hok _ _ _ _ (Qlt_le_weak _ _ Hrem) RB) as HF2.
+  pose proof (bands_PW_all _ _ (sorted_nodup _ (priorities_sorted qs1)) HF2) as HPW.
+  destruct (hand_out_bands bs t) as [bs' t'] eqn:Hh.
+  apply hand_out_bands_spec in Hh; [|exact B3]. destruct Hh as [H1 _].
+  apply band_final_concat in H1. destruct H1 as [_ HE].
+  intros H. inversion H. subst. clear H.
+  intros q1 q2 Hi1 Hi2 Hs Hw.
+  apply in_map_iff in Hi1 as [x2 [<- Hx2]]. apply in_map_iff in Hi2 as [y2 [<- Hy2]].
+  destruct (HE x2 Hx2) as [x1 [Hx1 [Sx [_ [Ux _]]]]].
+  destruct (HE y2 Hy2) as [y1 [Hy1 [Sy [Ly _]]]].
+  apply same_situation_sit in Hs.
+  pose proof (sit_static _ _ _ _ Sx Sy Hs) as Hs1.
+  destruct (static_fields _ _ Sx) as [_ [_ [_ [_ [Wx _]]]]].
+  destruct (static_fields _ _ Sy) as [_ [_ [_ [_ [Wy _]]]]].
+  rewrite Wx, Wy in Hw.
+  pose proof (HPW x1 y1 Hx1 Hy1 Hs1 Hw). lra.
+Qed.
+
+(** * How a band's round loop ends (clauses 5 and 6) *)
+Definition nat_Q (n : nat) : Q := inject_Z (Z.of_nat n).
+Definition entries (b : list rq) : Q := nat_Q (length (filter has_entry b)).
+
+Lemma nat_Q_S n : nat_Q (S n) == nat_Q n + 1.
+Proof. unfold nat_Q. rewrite Nat2Z.inj_succ. unfold Z.succ. rewrite inject_Z_plus. reflexivity. Qed.
+Lemma nat_Q_nonneg n : 0 <= nat_Q n.
+Proof. unfold nat_Q. change 0 with (inject_Z 0). rewrite <- Zle_Qle. lia. Qed.
+
+(** sums of per-queue slack: each in [0,1), positive only where [P] holds *)
+Lemma slack_sum {A} (d : A -> Q) (P : A -> bool) (l : list A) :
+  (forall x, In x l -> 0 <= d x /\ d x < 1 /\ (0 < d x -> P x = true)) ->
+  let s := fold_right (fun x a => d x + a) 0 l in
+  s == 0 \/ (0 < s /\ s < nat_Q (length (filter P l))).
+Proof.
+  induction l as [|x l IH]; intros H; cbn [fold_right filter length]; [left; reflexivity|].
+  destruct (H x (or_introl eq_refl)) as [H0 [H1 HP]].
+  specialize (IH (fun y Hy => H y (or_intror Hy))). cbn zeta in IH.
+  set (s := fold_right (fun x a => d x + a) 0 l) in *.
+  destruct (Qlt_le_dec 0 (d x)) as [Hpos|Hz].
+  - rewrite (HP Hpos). cbn [length]. rewrite nat_Q_S. right.
+    pose proof (nat_Q_nonneg (length (filter P l))).
+    destruct IH as [IH|[IH1 IH2]]; split; lra.
+  - assert (d x == 0) by lra.
+    destruct IH as [IH|[IH1 IH2]]; [left; lra|right].
+    destruct (P x); cbn [length]; [rewrite nat_Q_S|]; split; lra.
+Qed.
+
+Section Exit.
+Variables amount k W sum : Q.
+Hypothesis Hamount : 0 <= amount.
+Hypothesis Hk : 0 <= k.
+Hypothesis HW : 0 < W.
+Hypothesis Hsum : 0 < sum.
+
+(** this round's fair share of a queue that takes part in it *)
+Definition fsx (x : rq) : Q :=
+  if satisfied (fst x) || qeqb (q_weight (fst x)) 0 then 0
+  else qmul amount (qdiv (share_weight k W (fst x)) sum).
+
+Lemma fsx_wshare x : fsx x * sum == amount * wshare k W x.
+Proof.
+  unfold fsx, wshare. destruct (satisfied (fst x) || qeqb (q_weight (fst x)) 0); [lra|].
+  apply (fs_facts amount sum Hamount Hsum). apply share_weight_nonneg.
+Qed.
+
+Lemma floorp_slack fs : 0 <= fs ->
+  let g := (if qltb 0 (qfloor fs) then qfloor fs else 0) in 0 <= fs - g /\ fs - g < 1.
+Proof.
+  intros Hfs. cbn zeta. pose proof (qfloor_le fs) as Hl.
+  assert (Hu : fs < qfloor fs + 1).
+  { unfold qfloor. pose proof (Qlt_floor fs) as H. rewrite inject_Z_plus in H. exact H. }
+  destruct (qltb 0 (qfloor fs)) eqn:E; [apply qltb_iff in E|apply qltb_false in E]; split; lra.
+Qed.
+
+(** a visit that does not ask for another round leaves a slack in [0,1), and a
+    positive slack leaves an entry in the remainder map *)
+Lemma visit_slack x :
+  visit_a amount k W sum x = false ->
+  let d := fsx x - visit_g amount k W sum x in
+  0 <= d /\ d < 1 /\ (0 < d -> has_entry (visit_out amount k W sum x) = true).
+Proof.
+  destruct x as [q e]. unfold visit_a, visit_g, visit_out, visit, fsx. cbn [fst snd].
+  destruct (satisfied q) eqn:Hs; cbn [orb fst snd].
+  { intros _. split; [lra|]. split; [lra|]. intros H. lra. }
+  destruct (qeqb (q_weight q) 0) eqn:Hw; cbn [fst snd].
+  { intros _. split; [lra|]. split; [lra|]. intros H. lra. }
+  pose proof (fs_facts amount sum Hamount Hsum _ (share_weight_nonneg k W q)) as [Hfs0 _].
+  set (fs := qmul amount (qdiv (share_weight k W q) sum)) in *.
+  pose proof (remaining_unsat q Hs) as [_ Hrr0].
+  unfold give_in_round.
+  destruct (qleb (remaining_requested q) fs) eqn:E.
+  - apply qleb_iff in E.
+    destruct (qeqb (remaining_requested q) 0) eqn:E0; cbn [fst snd].
+    { apply qeqb_iff in E0. lra. }
+    intros Ha. apply qltb_false in Ha. split; [lra|]. split; [lra|]. intros H. lra.
+  - apply qleb_false in E.
+    pose proof (floorp_slack fs Hfs0) as [S0 S1].
+    set (g := if qltb 0 (qfloor fs) then qfloor fs else 0) in *.
+    destruct (qeqb g 0) eqn:Eg; cbn [fst snd].
+    + intros _. apply qeqb_iff in Eg. split; [lra|]. split; [lra|]. intros H.
+      assert (Hd : qltb 0 (qsub fs g) = true) by (apply qltb_iff; rewrite qsub_eq; lra).
+      rewrite Hd. reflexivity.
+    + intros _. split; [lra|]. split; [lra|]. intros H.
+      assert (Hd : qltb 0 (qsub fs g) = true) by (apply qltb_iff; rewrite qsub_eq; lra).
+      rewrite Hd. reflexivity.
+Qed.
+
+Lemma take_sum : forall b total,
+  fold_left (take amount k W sum) b total
+  == total - fold_right (fun x a => visit_g amount k W sum x + a) 0 b.
+Proof.
+  induction b as [|x b IH]; intros total; cbn [fold_left fold_right]; [lra|].
+  rewrite IH. unfold take. destruct (qeqb (visit_g amount k W sum x) 0) eqn:E.
+  - apply qeqb_iff in E. lra.
+  - rewrite qsub_eq. lra.
+Qed.
+
+Lemma fsx_sum b :
+  fold_right (fun x a => fsx x + a) 0 b * sum == amount * wsum k W b.
+Proof.
+  induction b as [|x b IH]; cbn [fold_right].
+  - change (wsum k W []) with 0. lra.
+  - change (wsum k W (x :: b)) with (wshare k W x + wsum k W b).
+    pose proof (fsx_wshare x). lra.
+Qed.
+
+Lemma slack_split b :
+  fold_right (fun x a => (fsx x - visit_g amount k W sum x) + a) 0 b
+  == fold_right (fun x a => fsx x + a) 0 b - fold_right (fun x a => visit_g amount k W sum x + a) 0 b.
+Proof. induction b as [|x b IH]; cbn [fold_right]; [lra|]. rewrite IH. lra. Qed.
+
+(** last round of a band: nobody asked for another round *)
+Lemma quiet_round b :
+  wsum k W b == sum -> existsb (visit_a amount k W sum) b = false ->
+  let t := fold_left (take amount k W sum) b amount in
+  t == 0 \/ (0 < t /\ t < entries (map (visit_out amount k W sum) b)).
+Proof.
+  intros Hws Hq. cbn zeta.
+  assert (Hall : forall x, In x b -> visit_a amount k W sum x = false).
+  { intros x Hx. destruct (visit_a amount k W sum x) eqn:E; [|reflexivity].
+    assert (existsb (visit_a amount k W sum) b = true) by (apply existsb_exists; exists x; auto).
+    congruence. }
+  pose proof (slack_sum (fun x => fsx x - visit_g amount k W sum x)
+                        (fun x => has_entry (visit_out amount k W sum x)) b) as HS.
+  cbn zeta in HS. rewrite slack_split in HS.
+  assert (Hfs : fold_right (fun x a => fsx x + a) 0 b == amount).
+  { pose proof (fsx_sum b) as H. rewrite Hws in H.
+    apply (Qmult_inj_r _ _ sum); [lra|exact H]. }
+  rewrite take_sum. rewrite Hfs in HS.
+  assert (He : entries (map (visit_out amount k W sum) b)
+               = nat_Q (length (filter (fun x => has_entry (visit_out amount k W sum x)) b))).
+  { unfold entries. f_equal. clear. induction b as [|x b IH]; cbn [map filter]; [reflexivity|].
+    destruct (has_entry (visit_out amount k W sum x)); cbn [length]; rewrite IH; reflexivity. }
+  rewrite He. apply HS. intros x Hx. apply visit_slack. apply Hall. exact Hx.
+Qed.
+End Exit.
+
+Definition WF5 (b : list rq) : Prop :=
+  Forall (fun x => 0 <= q_weight (fst x) /\ 0 <= q_usage (fst x) /\ UB x) b.
+
+Lemma share_weight_zero_weight k W q :
+  0 <= k -> 0 <= q_usage q -> q_weight q == 0 -> share_weight k W q == 0.
+Proof.
+  intros Hk Hu Hw. unfold share_weight, qmax.
+  destruct (qleb 0 _) eqn:E; [|reflexivity]. apply qleb_iff in E.
+  rewrite qadd_eq, qmul_eq, qsub_eq, qdiv_eq in *. rewrite Hw in *.
+  assert (0 / W == 0) by (unfold Qdiv; lra). rewrite H in *.
+  assert (0 <= k * q_usage q) by (apply Qmult_le_0_compat; assumption).
+  lra.
+Qed.
+
+Lemma wsum_eq_ssum k W b : 0 <= k -> WF5 b -> wsum k W b == ssum k W b.
+Proof.
+  intros Hk H. induction H as [|x b [Hw [Hu _]] HF IH].
+  - reflexivity.
+  - change (wsum k W (x :: b)) with (wshare k W x + wsum k W b).
+    change (ssum k W (x :: b)) with ((if satisfied (fst x) then 0 else share_weight k W (fst x)) + ssum k W b).
+    rewrite IH. unfold wshare. destruct (satisfied (fst x)); cbn [orb]; [lra|].
+    destruct (qeqb (q_weight (fst x)) 0) eqn:E; [|lra].
+    apply qeqb_iff in E. rewrite (share_weight_zero_weight k W _ Hk Hu E). lra.
+Qed.
+
+Lemma sw_pos_iff k W q : 0 < W ->
+  (0 < share_weight k W q <-> k * q_usage q * W < q_weight q * (1 + k)).
+Proof.
+  intros HW. unfold share_weight, qmax.
+  set (t := qadd (qdiv (q_weight q) W) (qmul k (qsub (qdiv (q_weight q) W) (q_usage q)))).
+  assert (Ht : t * W == q_weight q * (1 + k) - k * q_usage q * W).
+  { unfold t. rewrite qadd_eq, qmul_eq, qsub_eq, qdiv_eq. field. lra. }
+  assert (Hiff : 0 < t <-> 0 < t * W).
+  { split; intros H.
+    - apply Qmult_lt_0_compat; assumption.
+    - destruct (Qlt_le_dec 0 t) as [C|C]; [exact C|]. exfalso.
+      assert (t * W <= 0 * W) by (apply Qmult_le_compat_r; lra). lra. }
+  destruct (qleb 0 t) eqn:E.
+  - rewrite Hiff, Ht. split; lra.
+  - apply qleb_false in E. split; intros H; [lra|]. exfalso.
+    assert (0 < t * W) by lra. apply Hiff in H0. lra.
+Qed.
+
+Definition Einv (k : Q) (b : list rq) : Prop :=
+  forall x, In x b -> has_entry x = true ->
+    satisfied (fst x) = false
+    /\ k * q_usage (fst x) * total_weights b < q_weight (fst x) * (1 + k).
+
+Lemma total_weights_twsum b : total_weights b == twsum b.
+Proof. unfold total_weights. rewrite total_weights_acc. lra. Qed.
+
+Lemma twsum_ge b x :
+  Forall (fun y => 0 <= q_weight (fst y)) b -> In x b -> satisfied (fst x) = false ->
+  q_weight (fst x) <= twsum b.
+Proof.
+  intros HF. induction HF as [|y b Hy HF IH]; intros Hx Hs; [destruct Hx|].
+  cbn [twsum fold_right]. fold (twsum b).
+  assert (0 <= twsum b).
+  { clear -HF. induction HF as [|z b Hz HF IH]; cbn [twsum fold_right]; [lra|]. fold (twsum b).
+    destruct (qltb 0 (remaining_requested (fst z))); lra. }
+  destruct Hx as [->|Hx].
+  - destruct (remaining_unsat _ Hs) as [_ Hr]. apply qltb_iff in Hr. rewrite Hr. lra.
+  - specialize (IH Hx Hs). destruct (qltb 0 (remaining_requested (fst y))); lra.
+Qed.
+
+Lemma ssum_ge k W b x : In x b -> satisfied (fst x) = false -> share_weight k W (fst x) <= ssum k W b.
+Proof.
+  induction b as [|y b IH]; intros Hx Hs; [destruct Hx|].
+  change (ssum k W (y :: b)) with ((if satisfied (fst y) then 0 else share_weight k W (fst y)) + ssum k W b).
+  assert (0 <= ssum k W b).
+  { clear. induction b as [|z b IH]; [cbn; lra|].
+    change (ssum k W (z :: b)) with ((if satisfied (fst z) then 0 else share_weight k W (fst z)) + ssum k W b).
+    pose proof (share_weight_nonneg k W (fst z)). destruct (satisfied (fst z)); lra. }
+  pose proof (share_weight_nonneg k W (fst y)).
+  destruct Hx as [->|Hx].
+  - rewrite Hs. lra.
+  - specialize (IH Hx Hs). destruct (satisfied (fst y)); lra.
+Qed.
+
+Section RoundE.
+Variables amount k W sum : Q.
+Hypothesis Hamount : 0 <= amount.
+Hypothesis Hk : 0 <= k.
+Hypothesis HW : 0 < W.
+Hypothesis Hsum : 0 < sum.
+
+Lemma fresh_entry x :
+  has_entry (visit_out amount k W sum x) = true ->
+  has_entry x = true \/ (satisfied (fst x) = false /\ 0 < share_weight k W (fst x)).
+Proof.
+  destruct x as [q e]. unfold visit_out, visit. cbn [fst snd].
+  destruct (satisfied q) eqn:Hs; cbn [fst]; [auto|].
+  destruct (qeqb (q_weight q) 0); cbn [fst]; [auto|].
+  pose proof (fs_facts amount sum Hamount Hsum _ (share_weight_nonneg k W q)) as [Hfs0 Hfs].
+  set (fs := qmul amount (qdiv (share_weight k W q) sum)) in *.
+  assert (Hpos : 0 < fs -> 0 < share_weight k W q).
+  { intros Hp. assert (0 < fs * sum) by (apply Qmult_lt_0_compat; assumption).
+    rewrite Hfs in H. destruct (Qlt_le_dec 0 (share_weight k W q)) as [C|C]; [exact C|]. exfalso.
+    assert (amount * share_weight k W q <= amount * 0).
+    { rewrite (Qmult_comm amount), (Qmult_comm amount 0). apply Qmult_le_compat_r; assumption. }
+    lra. }
+  unfold give_in_round. destruct (qleb (remaining_requested q) fs).
+  - destruct (qeqb (remaining_requested q) 0); cbn; discriminate.
+  - pose proof (floorp_slack fs Hfs0) as [S0 _].
+    set (g := if qltb 0 (qfloor fs) then qfloor fs else 0) in *.
+    assert (Hcase : has_entry (q, if qltb 0 (qsub fs g) then Some (qsub fs g) else e) = true ->
+                    has_entry (q, e) = true \/ (false = false /\ 0 < share_weight k W q)).
+    { destruct (qltb 0 (qsub fs g)) eqn:Ed; [|auto].
+      apply qltb_iff in Ed. rewrite qsub_eq in Ed. intros _. right. split; [reflexivity|].
+      apply Hpos.
+      assert (0 <= g).
+      { unfold g. destruct (qltb 0 (qfloor fs)) eqn:E; [apply qltb_iff in E|]; lra. }
+      lra. }
+    destruct (qeqb g 0); cbn [fst]; exact Hcase.
+Qed.
+End RoundE.
+
+Lemma twsum_mono b b' :
+  Forall2 evolves b b' -> Forall (fun y => 0 <= q_weight (fst y)) b -> twsum b' <= twsum b.
+Proof.
+  induction 1 as [|x x' b b' [S [Hf _]] HF IH]; intros HW; [cbn; lra|].
+  inversion HW as [|? ? Hx HW']. subst. specialize (IH HW').
+  cbn [twsum fold_right]. fold (twsum b). fold (twsum b').
+  destruct (static_fields _ _ S) as [_ [_ [_ [_ [Wx _]]]]]. rewrite Wx.
+  pose proof (static_requestable _ _ S) as HR.
+  destruct (qltb 0 (remaining_requested (fst x'))) eqn:E'.
+  - apply qltb_iff in E'.
+    assert (E : qltb 0 (remaining_requested (fst x)) = true).
+    { apply qltb_iff. unfold remaining_requested in *.
+      destruct (qltb (requestable (fst x')) (q_fair (fst x'))) eqn:A'; [lra|].
+      rewrite qsub_eq in E'. rewrite HR in E'.
+      destruct (qltb (requestable (fst x)) (q_fair (fst x))) eqn:A.
+      - apply qltb_iff in A. lra.
+      - rewrite qsub_eq. lra. }
+    rewrite E. lra.
+  - destruct (qltb 0 (remaining_requested (fst x))); lra.
+Qed.
+
+Definition band_eff (k : Q) (o : list rq) (x : rq) : Q :=
+  if qeqb (total_weights o) 0 then 0 else share_weight k (total_weights o) (fst x).
+
+(** nothing more can be given to the band: no pending remainders, and every queue
+    still wanting more has effective weight 0 *)
+Definition idle_band (k : Q) (o : list rq) : Prop :=
+  (forall x, In x o -> has_entry x = false)
+  /\ (forall x, In x o -> satisfied (fst x) = false -> band_eff k o x == 0).
+
+Lemma WF5_weights b : WF5 b -> Forall (fun y => 0 <= q_weight (fst y)) b.
+Proof. intros H. eapply Forall_impl; [|exact H]. cbn. tauto. Qed.
+
+Lemma divide_up_to_exit k : 0 <= k -> forall fuel b total o t,
+  0 <= total -> WF5 b -> Einv k b ->
+  divide_up_to fuel k b total = Done (o, t) ->
+  WF5 o /\ Einv k o /\ (idle_band k o \/ t == 0 \/ (0 < t /\ t < entries o)).
+Proof.
+  intros Hk. induction fuel as [|f IH]; intros b total o t Ht HWF HE; cbn [divide_up_to]; [discriminate|].
+  pose proof (WF5_weights b HWF) as HWb.
+  assert (HWF' := HWF). unfold WF5 in HWF'. rewrite Forall_forall in HWF'.
+  destruct (qeqb (total_weights b) 0) eqn:EW.
+  { intros H. inversion H. subst o t. split; [exact HWF|]. split; [exact HE|]. left.
+    apply qeqb_iff in EW. split.
+    - intros x Hx. destruct (has_entry x) eqn:Ee; [|reflexivity]. exfalso.
+      destruct (HE x Hx Ee) as [Hs Hf]. rewrite EW in Hf.
+      pose proof (twsum_ge b x HWb Hx Hs) as Hge. rewrite <- total_weights_twsum, EW in Hge.
+      assert (0 <= q_weight (fst x) * (1 + k)); [|nra].
+      destruct (HWF' x Hx) as [Hw _]. nra.
+    - intros x _ _. unfold band_eff. apply qeqb_iff in EW. rewrite EW. reflexivity. }
+  assert (HW : 0 < total_weights b).
+  { pose proof (total_weights_nonneg b HWb) as H0. apply qeqb_false in EW.
+    apply Qle_lt_or_eq in H0. destruct H0 as [H0|H0]; [exact H0|]. exfalso. apply EW. lra. }
+  destruct (qeqb (share_weights_sum k (total_weights b) b) 0) eqn:Hs.
+  { intros H. inversion H. subst o t. split; [exact HWF|]. split; [exact HE|]. left.
+    apply qeqb_iff in Hs. rewrite share_weights_sum_eq in Hs. split.
+    - intros x Hx. destruct (has_entry x) eqn:Ee; [|reflexivity]. exfalso.
+      destruct (HE x Hx Ee) as [Hsx Hf]. apply (sw_pos_iff k _ _ HW) in Hf.
+      pose proof (ssum_ge k (total_weights b) b x Hx Hsx). lra.
+    - intros x Hx Hsx. unfold band_eff. rewrite EW.
+      pose proof (ssum_ge k (total_weights b) b x Hx Hsx).
+      pose proof (share_weight_nonneg k (total_weights b) (fst x)). lra. }
+  set (W := total_weights b) in *.
+  pose proof (sum_pos k W b Hs) as Hsum. set (sum := share_weights_sum k W b) in *.
+  destruct (round_queues total k W sum b total false) as [[o1 t1] a1] eqn:R1.
+  pose proof (round_spec total k W sum Ht Hsum _ _ _ _ _ _ R1 (inv_initial k W b total Ht))
+    as [Hev [_ [Ht1 _]]].
+  rewrite (round_decl_eq total k W sum Ht Hsum) in R1 by (apply inv_initial; exact Ht).
+  unfold round_decl in R1. cbn [orb] in R1.
+  assert (Eo : o1 = map (visit_out total k W sum) b) by (inversion R1; reflexivity).
+  assert (Et : t1 = fold_left (take total k W sum) b total) by (inversion R1; reflexivity).
+  assert (Ea : a1 = existsb (visit_a total k W sum) b) by (inversion R1; reflexivity).
+  (* the state after the round keeps the invariants *)
+  assert (HWF1 : WF5 o1).
+  { unfold WF5. apply Forall_forall. intros x1 Hx1.
+    destruct (Forall2_in_r _ _ _ _ Hev Hx1) as [x [Hx [S [_ [_ U]]]]].
+    destruct (static_fields _ _ S) as [_ [_ [_ [_ [Wx [_ Ux]]]]]]. rewrite Wx, Ux.
+    destruct (HWF' x Hx) as [A [B C]]. auto. }
+  assert (HE1 : Einv k o1).
+  { intros x1 Hx1 He1. rewrite Eo in Hx1. apply in_map_iff in Hx1 as [x [Ex Hx]].
+    destruct (HWF' x Hx) as [Hw [Hu HU]].
+    destruct (visit total k W sum x) as [[x1' g] a] eqn:Vx.
+    pose proof (visit_spec total k W sum Ht Hsum _ _ _ _ Vx) as [S [_ [_ [_ [_ [_ [_ U]]]]]]].
+    assert (x1' = x1) by (unfold visit_out in Ex; rewrite Vx in Ex; exact Ex). subst x1'.
+    destruct (U HU) as [_ U2]. specialize (U2 He1).
+    split; [apply lt_requestable_unsat; exact U2|].
+    destruct (static_fields _ _ S) as [_ [_ [_ [_ [Wx [_ Ux]]]]]]. rewrite Wx, Ux.
+    assert (Hb : k * q_usage (fst x) * W < q_weight (fst x) * (1 + k)).
+    { rewrite <- Ex in He1. apply (fresh_entry total k W sum Ht Hsum) in He1.
+      destruct He1 as [He|[_ Hp]].
+      - apply (HE x Hx He).
+      - apply (sw_pos_iff k W _ HW). exact Hp. }
+    assert (HWle : total_weights o1 <= W).
+    { unfold W. rewrite !total_weights_twsum. apply twsum_mono; assumption. }
+    assert (0 <= k * q_usage (fst x)) by (apply Qmult_le_0_compat; assumption).
+    assert (k * q_usage (fst x) * total_weights o1 <= k * q_usage (fst x) * W).
+    { rewrite !(Qmult_comm (k * q_usage (fst x))). apply Qmult_le_compat_r; assumption. }
+    lra. }
+  destruct (negb a1 || qeqb t1 0) eqn:Hstop.
+  - intros H. inversion H. subst o t. split; [exact HWF1|]. split; [exact HE1|]. right.
+    apply orb_true_iff in Hstop. destruct Hstop as [Ha|Hz].
+    + apply negb_true_iff in Ha. rewrite Ea in Ha.
+      pose proof (quiet_round total k W sum Ht Hsum b) as Q. cbn zeta in Q.
+      rewrite <- Et, <- Eo in Q. apply Q; [|exact Ha].
+      rewrite (wsum_eq_ssum k W b Hk HWF). unfold sum. rewrite share_weights_sum_eq. reflexivity.
+    + left. apply qeqb_iff. exact Hz.
+  - intros H. eapply IH; [exact Ht1|exact HWF1|exact HE1|exact H].
+Qed.
+
+Lemma evolves_fairs_le b b' : Forall2 evolves b b' -> fairs b <= fairs b'.
+Proof.
+  induction 1 as [|x x' b b' [_ [Hf _]] HF IH]; [lra|]. rewrite !fairs_cons. lra.
+Qed.
+
+Definition band_exit (k t : Q) (p : Z) (o : list rq) : Prop :=
+  (forall x, In x o -> q_prio (fst x) = p) /\ WF5 o
+  /\ (idle_band k o \/ t == 0 \/ (0 < t /\ t < entries o)).
+
+Lemma run_bands_exit k qs : 0 <= k ->
+  (forall p, (forall x, In x (band p qs) -> q_prio (fst x) = p) /\ WF5 (band p qs) /\ Einv k (band p qs)) ->
+  forall ps total bs t, 0 <= total ->
+  run_bands k ps qs total = Done (bs, t) ->
+  0 <= t /\ t <= total /\ Forall2 (band_exit k t) ps bs.
+Proof.
+  intros Hk H0. induction ps as [|p r IH]; intros total bs t Ht; cbn [run_bands].
+  - intros H. inversion H. subst. split; [exact Ht|]. split; [lra|constructor].
+  - pose proof (divide_up_to_spec k (S (length (band p qs))) (band p qs) total Ht) as HS.
+    destruct (divide_up_to (S (length (band p qs))) k (band p qs) total) as [[b1 t1]|] eqn:D; [|discriminate].
+    destruct HS as [E [Hsum Ht1]].
+    destruct (run_bands k r qs t1) as [[bs1 t2]|] eqn:R; [|discriminate].
+    intros H. inversion H. subst bs t. clear H.
+    destruct (IH t1 bs1 t2 Ht1 R) as [I1 [I2 I3]].
+    pose proof (evolves_fairs_le _ _ E) as Hle.
+    split; [exact I1|]. split; [lra|]. constructor; [|exact I3].
+    destruct (H0 p) as [Hp [HWF HE]].
+    destruct (divide_up_to_exit k Hk _ _ _ _ _ Ht HWF HE D) as [HWF1 [_ Hex]].
+    split; [|split; [exact HWF1|]].
+    + intros x1 Hx1. destruct (Forall2_in_r _ _ _ _ E Hx1) as [x [Hx [S _]]].
+      apply static_fields in S. destruct S as [_ [S _]]. rewrite S. apply Hp. exact Hx.
+    + destruct Hex as [Hi|[Hz|[Hp1 Hp2]]]; [left; exact Hi|right; left; lra|].
+      destruct (Qlt_le_dec 0 t2) as [C|C]; [right; right; split; lra|right; left; lra].
+Qed.
+
+Lemma hand_out_drain : forall es total es' t',
+  0 <= total -> total <= nat_Q (length es) -> hand_out es total = (es', t') -> t' == 0.
+Proof.
+  induction es as [|[q e] r IH]; intros total es' t' Ht Hle H.
+  - cbn in H. inversion H. subst. cbn [length] in Hle. change (nat_Q 0) with 0 in Hle. lra.
+  - cbn [hand_out] in H. destruct (qeqb total 0) eqn:E0.
+    + inversion H. subst. apply qeqb_iff. exact E0.
+    + destruct (hand_out r (qsub total (qmin 1 total))) as [r1 t1] eqn:Hr.
+      inversion H. subst. clear H. cbn [length] in Hle. rewrite nat_Q_S in Hle.
+      destruct (qmin1_facts total Ht) as [G0 [G1 G2]].
+      apply IH in Hr; [exact Hr|rewrite qsub_eq; lra|].
+      rewrite qsub_eq. unfold qmin in *. destruct (qleb 1 total) eqn:E1.
+      * lra.
+      * pose proof (nat_Q_nonneg (length r)). lra.
+Qed.
+
+Lemma no_entries_filter b : existsb has_entry b = false -> filter has_entry b = [].
+Proof.
+  induction b as [|x b IH]; cbn [existsb filter]; [reflexivity|].
+  destruct (has_entry x); cbn [orb]; [discriminate|exact IH].
+Qed.
+
+Lemma hand_out_bands_positive k : forall bs t bs' t',
+  0 <= t -> Forall (fun o => idle_band k o \/ t == 0 \/ (0 < t /\ t < entries o)) bs ->
+  hand_out_bands bs t = (bs', t') -> 0 < t' ->
+  bs' = bs /\ Forall (idle_band k) bs.
+Proof.
+  induction bs as [|b r IH]; intros t bs' t' Ht HF H Hpos.
+  - cbn in H. inversion H. subst. split; [reflexivity|constructor].
+  - cbn [hand_out_bands] in H. inversion HF as [|? ? Hb HF']. subst.
+    destruct (qleb t 0) eqn:E0.
+    { apply qleb_iff in E0. inversion H. subst. lra. }
+    apply qleb_false in E0.
+    destruct (negb (existsb has_entry b)) eqn:Ee.
+    + apply negb_true_iff in Ee.
+      destruct (hand_out_bands r t) as [r1 t1] eqn:Hr. inversion H. subst. clear H.
+      destruct (IH t r1 t' Ht HF' Hr Hpos) as [-> Hall].
+      split; [reflexivity|]. constructor; [|exact Hall].
+      destruct Hb as [Hi|[Hz|[_ Hlt]]]; [exact Hi|lra|].
+      unfold entries in Hlt. rewrite (no_entries_filter b Ee) in Hlt. cbn [length] in Hlt. change (nat_Q 0) with 0 in Hlt. lra.
+    + exfalso. apply negb_false_iff in Ee.
+      unfold divide_remaining in H.
+      destruct (hand_out (sort_entries (filter has_entry b)) t) as [es t1] eqn:Hh.
+      destruct (hand_out_bands r t1) as [r1 t2] eqn:Hr. inversion H. subst. clear H.
+      assert (Hz : t1 == 0).
+      { eapply hand_out_drain; [exact Ht| |exact Hh].
+        rewrite (Permutation_length (sort_entries_perm (filter has_entry b))).
+        destruct Hb as [[Hne _]|[Hz|[_ Hlt]]]; [|lra|unfold entries in Hlt; lra].
+        apply existsb_exists in Ee. destruct Ee as [x [Hx He]]. rewrite (Hne x Hx) in He. discriminate. }
+      destruct r as [|b2 r2]; cbn [hand_out_bands] in Hr.
+      * inversion Hr. subst. lra.
+      * assert (E1 : qleb t1 0 = true) by (apply qleb_iff; lra). rewrite E1 in Hr.
+        inversion Hr. subst. lra.
+Qed.
+
+Lemma total_weights_fst b b' : map fst b = map fst b' -> total_weights b = total_weights b'.
+Proof.
+  intros H. unfold total_weights.
+  set (f := fun (acc : Q) (q : queue) =>
+              if qltb 0 (remaining_requested q) then qadd acc (q_weight q) else acc).
+  assert (G : forall (l : list rq) acc,
+             fold_left (fun acc (x : rq) =>
+                          if qltb 0 (remaining_requested (fst x)) then qadd acc (q_weight (fst x)) else acc) l acc
+             = fold_left f (map fst l) acc).
+  { induction l as [|x l IH]; intros acc; cbn [fold_left map]; [reflexivity|]. rewrite IH. reflexivity. }
+  rewrite !G, H. reflexivity.
+Qed.
+
+Lemma band_fst p l : map fst (band p l) = filter (fun q => (q_prio q =? p)%Z) l.
+Proof. unfold band. rewrite map_map. cbn [fst]. apply map_id. Qed.
+
+Lemma filter_none {A} (f : A -> bool) l : (forall x, In x l -> f x = false) -> filter f l = [].
+Proof.
+  induction l as [|x l IH]; intros H; cbn [filter]; [reflexivity|].
+  rewrite (H x (or_introl eq_refl)). apply IH. intros y Hy. apply H. right. exact Hy.
+Qed.
+
+Lemma band_select ps bs :
+  Forall2 (fun p o => forall x : rq, In x o -> q_prio (fst x) = p) ps bs -> NoDup ps ->
+  forall p o, In (p, o) (combine ps bs) ->
+  filter (fun q => (q_prio q =? p)%Z) (map fst (concat bs)) = map fst o.
+Proof.
+  induction 1 as [|p0 o0 ps bs H0 HF IH]; intros ND p o Hin; [destruct Hin|].
+  inversion ND as [|? ? Hn ND']. subst. cbn [combine In concat] in *.
+  rewrite map_app, filter_app.
+  assert (Hrest : forall y, In y (concat bs) -> In (q_prio (fst y)) ps).
+  { clear -HF. induction HF as [|p1 o1 ps bs H1 HF IH]; cbn [concat]; [intros y []|].
+    intros y Hy. apply in_app_or in Hy as [Hy|Hy]; [left; symmetry; apply H1; exact Hy|right; apply IH; exact Hy]. }
+  destruct Hin as [E|Hin].
+  - inversion E. subst p0 o0.
+    rewrite (filter_all _ (map fst o)).
+    2:{ intros q Hq. apply in_map_iff in Hq as [x [<- Hx]]. apply Z.eqb_eq. apply H0. exact Hx. }
+    rewrite (filter_none _ (map fst (concat bs))); [apply app_nil_r|].
+    intros q Hq. apply in_map_iff in Hq as [y [<- Hy]]. apply Z.eqb_neq. intros E'.
+    apply Hn. rewrite <- E'. apply Hrest. exact Hy.
+  - rewrite (filter_none _ (map fst o0)).
+    2:{ intros q Hq. apply in_map_iff in Hq as [x [<- Hx]]. apply Z.eqb_neq. rewrite (H0 x Hx).
+        intros E'. apply Hn. rewrite E'. apply (in_combine_l _ _ _ _ Hin). }
+    cbn [app]. apply IH; assumption.
+Qed.
+
+Lemma in_concat_combine {A B} (ps : list A) (bs : list (list B)) x :
+  length ps = length bs -> In x (concat bs) -> exists p o, In (p, o) (combine ps bs) /\ In x o.
+Proof.
+  revert bs. induction ps as [|p ps IH]; intros [|o bs] HL Hx; cbn in HL; try discriminate; [destruct Hx|].
+  cbn [concat] in Hx. apply in_app_or in Hx as [Hx|Hx].
+  - exists p, o. split; [left; reflexivity|exact Hx].
+  - injection HL as HL. destruct (IH bs HL Hx) as [p' [o' [H1 H2]]]. exists p', o'. split; [right; exact H1|exact H2].
+Qed.
+
+(** 5. If surplus stays undistributed, every queue that still wants more has
+    effective over-quota weight 0 within its priority band. *)
+Theorem no_idle_surplus T k qs out rem :
+  fresh qs -> 0 <= k -> Forall (fun q => 0 <= q_weight q /\ 0 <= q_usage q) qs ->
+  set_resource_share T k qs = Done (out, rem) -> 0 < rem ->
+  forall q, In q out -> satisfied q = false ->
+            band_eff k (band (q_prio q) out) (q, None) == 0.
+Proof.
+  intros HF Hk HWq. unfold set_resource_share.
+  destruct (set_deserved T T qs) as [qs1 rem0] eqn:Hd.
+  apply set_deserved_spec in Hd. destruct Hd as [D1 _].
+  unfold fresh in HF. rewrite Forall_forall in HF, HWq.
+  destruct (qltb 0 rem0) eqn:Hrem.
+  2:{ intros H. inversion H. subst. intros C. lra. }
+  apply qltb_iff in Hrem. unfold divide_over_quota.
+  destruct (run_bands k (priorities qs1) qs1 rem0) as [[bs t]|] eqn:RB; [|discriminate].
+  assert (Hok : forall p, (forall x, In x (band p qs1) -> q_prio (fst x) = p)
+                          /\ WF5 (band p qs1) /\ Einv k (band p qs1)).
+  { intros p. unfold band. split; [|split].
+    - intros x Hx. apply in_map_iff in Hx as [q [<- Hq]]. apply filter_In in Hq as [_ Hq].
+      apply Z.eqb_eq in Hq. exact Hq.
+    - unfold WF5. apply Forall_forall. intros x Hx. apply in_map_iff in Hx as [a [<- Ha]].
+      apply filter_In in Ha as [Ha _]. cbn [fst].
+      destruct (Forall2_in_r _ _ _ _ D1 Ha) as [a0 [Ha0 [Sa Fa]]].
+      destruct (static_fields _ _ Sa) as [_ [_ [_ [_ [Wa [_ Ua]]]]]]. rewrite Wa, Ua.
+      destruct (HWq a0 Ha0) as [W0 U0]. split; [exact W0|]. split; [exact U0|].
+      split; cbn [fst snd]; [|cbn; discriminate].
+      rewrite (static_requestable _ _ Sa). pose proof (phase1_le_requestable T a0).
+      pose proof (HF a0 Ha0). lra.
+    - intros x Hx He. apply in_map_iff in Hx as [a [<- _]]. cbn in He. discriminate. }
+  pose proof (run_bands_exit k qs1 Hk Hok _ _ _ _ (Qlt_le_weak _ _ Hrem) RB) as [Ht [_ HE]].
+  destruct (hand_out_bands bs t) as [bs' t'] eqn:Hh.
+  intros H. inversion H. subst out rem. clear H. intros Hpos.
+  assert (HFi : Forall (fun o => idle_band k o \/ t == 0 \/ (0 < t /\ t < entries o)) bs).
+  { clear -HE. induction HE as [|p o ps bs [_ [_ Hx]] HF IH]; constructor; assumption. }
+  destruct (hand_out_bands_positive k _ _ _ _ Ht HFi Hh Hpos) as [-> Hidle].
+  intros q Hq Hs. apply in_map_iff in Hq as [x [<- Hx]].
+  assert (HL : length (priorities qs1) = length bs).
+  { clear -HE. induction HE; cbn [length]; [reflexivity|f_equal; assumption]. }
+  destruct (in_concat_combine _ _ _ HL Hx) as [p [o [Hpo Hxo]]].
+  assert (HP : Forall2 (fun p o => forall x : rq, In x o -> q_prio (fst x) = p) (priorities qs1) bs).
+  { clear -HE. induction HE as [|p o ps bs [Hp _] HF IH]; constructor; assumption. }
+  pose proof (band_select _ _ HP (sorted_nodup _ (priorities_sorted qs1)) p o Hpo) as Hsel.
+  assert (Hpx : q_prio (fst x) = p).
+  { clear -HP Hpo Hxo. induction HP as [|p0 o0 ps bs H0 HF IH]; [destruct Hpo|].
+    destruct Hpo as [E|Hpo]; [inversion E; subst; apply H0; exact Hxo|apply IH; exact Hpo]. }
+  rewrite Forall_forall in Hidle. destruct (Hidle o (in_combine_r _ _ _ _ Hpo)) as [_ Hi].
+  specialize (Hi x Hxo Hs). unfold band_eff in *. cbn [fst].
+  rewrite Hpx.
+  rewrite (total_weights_fst (band p (map fst (concat bs))) o); [exact Hi|].
+  rewrite band_fst. exact Hsel.
+Qed.
+
+(** * Priority bands end to end (clause 6) *)
+Lemma run_bands_app k qs : forall ps1 ps2 total,
+  run_bands k (ps1 ++ ps2) qs total =
+  match run_bands k ps1 qs total with
+  | OutOfFuel => OutOfFuel
+  | Done (bs1, t1) =>
+      match run_bands k ps2 qs t1 with
+      | OutOfFuel => OutOfFuel
+      | Done (bs2, t) => Done (bs1 ++ bs2, t)
+      end
+  end.
+Proof.
+  induction ps1 as [|p r IH]; intros ps2 total; cbn [app run_bands].
+  - destruct (run_bands k ps2 qs total) as [[bs2 t]|]; reflexivity.
+  - destruct (divide_up_to (S (length (band p qs))) k (band p qs) total) as [[b1 t1]|]; [|reflexivity].
+    rewrite IH. destruct (run_bands k r qs t1) as [[bs1 t2]|]; [|reflexivity].
+    destruct (run_bands k ps2 qs t2) as [[bs2 t]|]; reflexivity.
+Qed.
+
+Lemma hand_out_bands_stop l t : qleb t 0 = true -> hand_out_bands l t = (l, t).
+Proof. intros H. destruct l; cbn [hand_out_bands]; [reflexivity|]. rewrite H. reflexivity. Qed.
+
+Lemma hand_out_bands_app : forall l1 l2 t,
+  hand_out_bands (l1 ++ l2) t =
+  let '(l1', t1) := hand_out_bands l1 t in
+  let '(l2', t2) := hand_out_bands l2 t1 in (l1' ++ l2', t2).
+Proof.
+  induction l1 as [|b r IH]; intros l2 t; cbn [app hand_out_bands].
+  - destruct (hand_out_bands l2 t); reflexivity.
+  - destruct (qleb t 0) eqn:E.
+    + rewrite (hand_out_bands_stop l2 t E). reflexivity.
+    + destruct (negb (existsb has_entry b)).
+      * rewrite IH. destruct (hand_out_bands r t) as [r1 t1].
+        destruct (hand_out_bands l2 t1) as [l2' t2]. reflexivity.
+      * destruct (divide_remaining b t) as [b1 t1]. rewrite IH.
+        destruct (hand_out_bands r t1) as [r1 t2].
+        destruct (hand_out_bands l2 t2) as [l2' t3]. reflexivity.
+Qed.
+
+Lemma hand_out_le : forall es total es' t', 0 <= total -> hand_out es total = (es', t') -> t' <= total.
+Proof.
+  induction es as [|[q e] r IH]; intros total es' t' Ht H.
+  - cbn in H. inversion H. lra.
+  - cbn [hand_out] in H. destruct (qeqb total 0); [inversion H; lra|].
+    destruct (hand_out r (qsub total (qmin 1 total))) as [r1 t1] eqn:Hr. inversion H. subst.
+    destruct (qmin1_facts total Ht) as [G0 [G1 G2]].
+    apply IH in Hr; rewrite qsub_eq in *; lra.
+Qed.
+
+Lemma hand_out_bands_le : forall bs t bs' t', 0 <= t -> hand_out_bands bs t = (bs', t') -> t' <= t.
+Proof.
+  induction bs as [|b r IH]; intros t bs' t' Ht H.
+  - cbn in H. inversion H. lra.
+  - cbn [hand_out_bands] in H. destruct (qleb t 0); [inversion H; lra|].
+    destruct (negb (existsb has_entry b)).
+    + destruct (hand_out_bands r t) as [r1 t1] eqn:Hr. inversion H. subst. eapply IH; eauto.
+    + destruct (divide_remaining b t) as [b1 t1] eqn:Hd.
+      destruct (hand_out_bands r t1) as [r1 t2] eqn:Hr. inversion H. subst.
+      pose proof (divide_remaining_spec _ _ _ _ Ht Hd) as [_ [_ H1]].
+      unfold divide_remaining in Hd.
+      destruct (hand_out (sort_entries (filter has_entry b)) t) as [es tt] eqn:Hh. inversion Hd. subst.
+      pose proof (hand_out_le _ _ _ _ Ht Hh). pose proof (IH _ _ _ H1 Hr). lra.
+Qed.
+
+(** a band without pending remainders is not touched by the hand-out *)
+Lemma hand_out_bands_single_idle o t :
+  (forall x, In x o -> has_entry x = false) -> hand_out_bands [o] t = ([o], t).
+Proof.
+  intros H. cbn [hand_out_bands]. destruct (qleb t 0); [reflexivity|].
+  assert (E : existsb has_entry o = false).
+  { destruct (existsb has_entry o) eqn:E; [|reflexivity]. apply existsb_exists in E.
+    destruct E as [x [Hx He]]. rewrite (H x Hx) in He. discriminate. }
+  rewrite E. reflexivity.
+Qed.
+
+Definition prio_is (p : Z) (o : list rq) : Prop := forall x, In x o -> q_prio (fst x) = p.
+
+Lemma prio_final p o o' : prio_is p o -> band_final o o' -> prio_is p o'.
+Proof.
+  intros H [_ E] x2 Hx2. destruct (E x2 Hx2) as [x1 [Hx1 [S _]]].
+  apply static_fields in S. destruct S as [_ [S _]]. rewrite S. apply H. exact Hx1.
+Qed.
+
+Lemma prio_final_all ps bs bs' :
+  Forall2 prio_is ps bs -> Forall2 band_final bs bs' -> Forall2 prio_is ps bs'.
+Proof.
+  intros H. revert bs'. induction H as [|p o ps bs Hp HF IH]; intros bs' H'; inversion H'; subst; constructor.
+  - eapply prio_final; eassumption.
+  - apply IH. assumption.
+Qed.
+
+Lemma sorted_split ps1 p ps2 :
+  StronglySorted zgt (ps1 ++ p :: ps2) ->
+  (forall z, In z ps1 -> (p < z)%Z) /\ (forall z, In z ps2 -> (z < p)%Z).
+Proof.
+  induction ps1 as [|a l IH]; cbn [app]; intros H; inversion H as [|? ? S F]; subst.
+  - split; [intros z []|]. rewrite Forall_forall in F. exact F.
+  - destruct (IH S) as [I1 I2]. split; [|exact I2].
+    intros z [<-|Hz]; [|apply I1; exact Hz].
+    rewrite Forall_forall in F. apply F. apply in_or_app. right. left. reflexivity.
+Qed.
+
+Lemma concat_prio ps bs : Forall2 prio_is ps bs ->
+  forall y, In y (concat bs) -> In (q_prio (fst y)) ps.
+Proof.
+  induction 1 as [|p1 o1 ps bs H1 HF IH]; cbn [concat]; [intros y []|].
+  intros y Hy. apply in_app_or in Hy as [Hy|Hy]; [left; symmetry; apply H1; exact Hy|right; apply IH; exact Hy].
+Qed.
+
+Lemma in_combine_app {A B} (l1 : list A) (l1' : list B) a b l2 l2' :
+  length l1 = length l1' -> In (a, b) (combine (l1 ++ a :: l2) (l1' ++ b :: l2')).
+Proof.
+  revert l1'. induction l1 as [|x l IH]; intros [|y l'] H; cbn in H; try discriminate.
+  - left. reflexivity.
+  - cbn [app combine]. right. apply IH. injection H. auto.
+Qed.
+
+Lemma Forall2_len {A B} (R : A -> B -> Prop) l l' : Forall2 R l l' -> length l = length l'.
+Proof. induction 1; cbn [length]; [reflexivity|f_equal; assumption]. Qed.
+
+Lemma nat_Q_le n m : (n <= m)%nat -> nat_Q n <= nat_Q m.
+Proof. intros H. unfold nat_Q. rewrite <- Zle_Qle. lia. Qed.
+
+Lemma filter_length_le {A} (f : A -> bool) l : (length (filter f l) <= length l)%nat.
+Proof. induction l as [|x l IH]; cbn [filter length]; [lia|]. destruct (f x); cbn [length]; lia. Qed.
+
+Definition lower (p : Z) (q : queue) : bool := (q_prio q <? p)%Z.
+
+Lemma lower_deserved T p qs qs1 :
+  fresh qs -> Forall2 (deserved_step T) qs qs1 ->
+  sum_fair (filter (lower p) qs1) == sum_phase1 T (filter (lower p) qs).
+Proof.
+  intros HF H. induction H as [|q q1 qs qs1 [S F] H2 IH]; [reflexivity|].
+  inversion HF as [|? ? Hq HF']. subst. specialize (IH HF').
+  cbn [filter].
+  assert (E : lower p q1 = lower p q).
+  { unfold lower. destruct (static_fields _ _ S) as [_ [P _]]. rewrite P. reflexivity. }
+  rewrite E. destruct (lower p q); [|exact IH].
+  rewrite sum_fair_cons, sum_phase1_cons. lra.
+Qed.
+
+Lemma band_nonempty q l : In q l -> 1 <= nat_Q (length (band (q_prio q) l)).
+Proof.
+  intros H. unfold band. rewrite map_length.
+  assert (Hin : In q (filter (fun x => (q_prio x =? q_prio q)%Z) l))
+    by (apply filter_In; split; [exact H|apply Z.eqb_refl]).
+  destruct (filter (fun x => (q_prio x =? q_prio q)%Z) l) as [|a r]; [destruct Hin|].
+  cbn [length]. rewrite nat_Q_S. pose proof (nat_Q_nonneg (length r)). lra.
+Qed.
+
+Lemma lower_bands_initial qs1 ps1 p ps2 :
+  priorities qs1 = ps1 ++ p :: ps2 ->
+  fairs (concat (map (fun p' => band p' qs1) ps2)) == sum_fair (filter (lower p) qs1).
+Proof.
+  intros Hps. pose proof (priorities_sorted qs1) as HS. rewrite Hps in HS.
+  destruct (sorted_split _ _ _ HS) as [H1 H2].
+  assert (ND : NoDup ps2).
+  { apply sorted_nodup in HS. apply NoDup_remove_1 in HS. apply nodup_app_inv in HS. tauto. }
+  rewrite bands_concat, fairs_inj. rewrite (sum_fair_perm _ _ (band_partition qs1 ps2 ND)).
+  assert (E : filter (fun q => existsb (Z.eqb (q_prio q)) ps2) qs1 = filter (lower p) qs1).
+  { apply filter_ext_in. intros q Hq. unfold lower.
+    pose proof (priorities_in qs1 q Hq) as Hin. rewrite Hps in Hin.
+    apply in_app_or in Hin. destruct Hin as [Hin|[Hin|Hin]].
+    - specialize (H1 _ Hin). assert (Hf : (q_prio q <? p)%Z = false) by (apply Z.ltb_ge; lia).
+      rewrite Hf. destruct (existsb (Z.eqb (q_prio q)) ps2) eqn:E; [|reflexivity].
+      apply existsb_exists in E. destruct E as [z [Hz Ez]]. apply Z.eqb_eq in Ez. subst z.
+      specialize (H2 _ Hz). lia.
+    - rewrite <- Hin. rewrite Z.ltb_irrefl.
+      destruct (existsb (Z.eqb p) ps2) eqn:E; [|reflexivity].
+      apply existsb_exists in E. destruct E as [z [Hz Ez]]. apply Z.eqb_eq in Ez. subst z.
+      specialize (H2 _ Hz). lia.
+    - specialize (H2 _ Hin). assert (Hf : (q_prio q <? p)%Z = true) by (apply Z.ltb_lt; exact H2).
+      rewrite Hf. apply existsb_exists. exists (q_prio q). split; [exact Hin|apply Z.eqb_refl]. }
+  rewrite E. reflexivity.
+Qed.
+
+Lemma lower_bands_final ps1 p ps2 bs1 o bs2 :
+  StronglySorted zgt (ps1 ++ p :: ps2) ->
+  Forall2 prio_is ps1 bs1 -> prio_is p o -> Forall2 prio_is ps2 bs2 ->
+  filter (lower p) (map fst (concat (bs1 ++ o :: bs2))) = map fst (concat bs2).
+Proof.
+  intros HS F1 Fo F2. destruct (sorted_split _ _ _ HS) as [H1 H2].
+  rewrite concat_app. cbn [concat]. rewrite !map_app, !filter_app.
+  rewrite (filter_none _ (map fst (concat bs1))).
+  2:{ intros q Hq. apply in_map_iff in Hq as [y [<- Hy]]. unfold lower. apply Z.ltb_ge.
+      specialize (H1 _ (concat_prio _ _ F1 y Hy)). lia. }
+  rewrite (filter_none _ (map fst o)).
+  2:{ intros q Hq. apply in_map_iff in Hq as [y [<- Hy]]. unfold lower. rewrite (Fo y Hy). apply Z.ltb_irrefl. }
+  rewrite (filter_all _ (map fst (concat bs2))); [reflexivity|].
+  intros q Hq. apply in_map_iff in Hq as [y [<- Hy]]. unfold lower. apply Z.ltb_lt.
+  apply H2. apply (concat_prio _ _ F2 y Hy).
+Qed.
+
+Lemma app_eq_len {A} (l1 l1' l2 l2' : list A) :
+  length l1 = length l1' -> l1 ++ l2 = l1' ++ l2' -> l1 = l1' /\ l2 = l2'.
+Proof.
+  revert l1'. induction l1 as [|x l IH]; intros [|y l'] HL H; cbn in HL; try discriminate.
+  - split; [reflexivity|exact H].
+  - cbn [app] in H. injection H as -> H. injection HL as HL. destruct (IH l' HL H) as [-> ->]. split; reflexivity.
+Qed.
+
+(** 6. While a queue of a priority band is unsatisfied with positive effective
+    weight, all lower bands together receive less than one unit per queue of that
+    band beyond their in-quota parts. *)
+Theorem priority_bands T k qs out rem :
+  fresh qs -> 0 <= k -> Forall (fun q => 0 <= q_weight q /\ 0 <= q_usage q) qs ->
+  set_resource_share T k qs = Done (out, rem) ->
+  forall q, In q out -> satisfied q = false ->
+    0 < band_eff k (band (q_prio q) out) (q, None) ->
+    sum_fair (filter (lower (q_prio q)) out) - sum_phase1 T (filter (lower (q_prio q)) qs)
+    < nat_Q (length (band (q_prio q) out)).
+Proof.
+  intros HF Hk HWq. unfold set_resource_share.
+  destruct (set_deserved T T qs) as [qs1 rem0] eqn:Hd.
+  apply set_deserved_spec in Hd. destruct Hd as [D1 _].
+  pose proof (fun p => lower_deserved T p qs qs1 HF D1) as Hlow0.
+  unfold fresh in HF. rewrite Forall_forall in HF, HWq.
+  destruct (qltb 0 rem0) eqn:Hrem.
+  { apply qltb_iff in Hrem. assert (Hr0 : 0 <= rem0) by lra. unfold divide_over_quota.
+    destruct (run_bands k (priorities qs1) qs1 rem0) as [[bs t]|] eqn:RB; [|discriminate].
+    assert (Hok : forall p, (forall x, In x (band p qs1) -> q_prio (fst x) = p)
+                            /\ WF5 (band p qs1) /\ Einv k (band p qs1)).
+    { intros p. unfold band. split; [|split].
+      - intros x Hx. apply in_map_iff in Hx as [a [<- Ha]]. apply filter_In in Ha as [_ Ha].
+        apply Z.eqb_eq in Ha. exact Ha.
+      - unfold WF5. apply Forall_forall. intros x Hx. apply in_map_iff in Hx as [a [<- Ha]].
+        apply filter_In in Ha as [Ha _]. cbn [fst].
+        destruct (Forall2_in_r _ _ _ _ D1 Ha) as [a0 [Ha0 [Sa Fa]]].
+        destruct (static_fields _ _ Sa) as [_ [_ [_ [_ [Wa [_ Ua]]]]]]. rewrite Wa, Ua.
+        destruct (HWq a0 Ha0) as [W0 U0]. split; [exact W0|]. split; [exact U0|].
+        split; cbn [fst snd]; [|cbn; discriminate].
+        rewrite (static_requestable _ _ Sa). pose proof (phase1_le_requestable T a0).
+        pose proof (HF a0 Ha0). lra.
+      - intros x Hx He. apply in_map_iff in Hx as [a [<- _]]. cbn in He. discriminate. }
+    destruct (hand_out_bands bs t) as [bs' t'] eqn:Hh.
+    intros H. inversion H. subst out rem. clear H.
+    intros q Hq Hs Heff.
+    (* the band of q *)
+    pose proof (run_bands_exit k qs1 Hk Hok _ _ _ _ Hr0 RB) as [Ht [_ HE]].
+    assert (HP : Forall2 prio_is (priorities qs1) bs).
+    { clear -HE. induction HE as [|p o ps bs [Hp _] HF IH]; constructor; assumption. }
+    pose proof (hand_out_bands_spec _ _ _ _ Ht Hh) as [HBF [_ Ht']].
+    pose proof (prio_final_all _ _ _ HP HBF) as HP'.
+    assert (Hpin : In (q_prio q) (priorities qs1)).
+    { apply in_map_iff in Hq as [x [<- Hx]]. apply (concat_prio _ _ HP' x Hx). }
+    set (p := q_prio q) in *.
+    apply in_split in Hpin. destruct Hpin as [ps1 [ps2 Hps]].
+    pose proof (priorities_sorted qs1) as HSo. rewrite Hps in HSo.
+    (* decompose the two loops at that band *)
+    rewrite Hps in RB. rewrite run_bands_app in RB.
+    destruct (run_bands k ps1 qs1 rem0) as [[bs1 t1]|] eqn:RB1; [|discriminate].
+    pose proof (run_bands_spec k qs1 ps1 rem0 Hr0) as S1. rewrite RB1 in S1. destruct S1 as [_ [_ Ht1]].
+    cbn [run_bands] in RB.
+    destruct (divide_up_to (S (length (band p qs1))) k (band p qs1) t1) as [[o tp]|] eqn:DP; [|discriminate].
+    pose proof (divide_up_to_spec k (S (length (band p qs1))) (band p qs1) t1 Ht1) as SP. rewrite DP in SP. destruct SP as [EvP [_ Htp]].
+    destruct (run_bands k ps2 qs1 tp) as [[bs2 t2]|] eqn:RB2; [|discriminate].
+    inversion RB. subst bs t2. clear RB.
+    pose proof (run_bands_spec k qs1 ps2 tp Htp) as S2. rewrite RB2 in S2. destruct S2 as [_ [Sum2 _]].
+    rewrite hand_out_bands_app in Hh.
+    destruct (hand_out_bands bs1 t) as [bs1' ta] eqn:H1.
+    pose proof (hand_out_bands_spec _ _ _ _ Ht H1) as [BF1 [_ Hta]].
+    pose proof (hand_out_bands_le _ _ _ _ Ht H1) as Lta.
+    change (o :: bs2) with ([o] ++ bs2) in Hh. rewrite hand_out_bands_app in Hh.
+    destruct (hand_out_bands [o] ta) as [lo tb] eqn:H2.
+    pose proof (hand_out_bands_spec _ _ _ _ Hta H2) as [BFo [_ Htb]].
+    pose proof (hand_out_bands_le _ _ _ _ Hta H2) as Ltb.
+    destruct (hand_out_bands bs2 tb) as [bs2' tc] eqn:H3.
+    pose proof (hand_out_bands_spec _ _ _ _ Htb H3) as [BF2 [Sum3 _]].
+    inversion Hh. subst bs' tc. clear Hh.
+    inversion BFo as [|? o' ? ? BFo1 BFo2]. subst. inversion BFo2. subst. clear BFo BFo2.
+    change ([o'] ++ bs2') with (o' :: bs2') in *.
+    (* priorities of the final bands *)
+    rewrite Hps in HP.
+    apply Forall2_app_inv_l in HP. destruct HP as [c1 [c2 [P1 [P2 Ec]]]].
+    inversion P2 as [|? ? ? ? Po P3]. subst.
+    pose proof (run_bands_exit k qs1 Hk Hok _ _ _ _ Hr0 RB1) as [_ [_ HE1]].
+    apply app_eq_len in Ec.
+    2:{ rewrite <- (Forall2_len _ _ _ P1). symmetry. apply (Forall2_len _ _ _ HE1). }
+    destruct Ec as [<- Ec]. injection Ec as <- <-.
+    pose proof (prio_final_all _ _ _ P1 BF1) as P1'.
+    pose proof (prio_final _ _ _ Po BFo1) as Po'.
+    pose proof (prio_final_all _ _ _ P3 BF2) as P3'.
+    (* the final band of q is o' *)
+    assert (Hsel : filter (fun x => (q_prio x =? p)%Z) (map fst (concat (bs1' ++ o' :: bs2'))) = map fst o').
+    { apply (band_select (ps1 ++ p :: ps2) (bs1' ++ o' :: bs2')).
+      - apply Forall2_app; [exact P1'|constructor; assumption].
+      - apply sorted_nodup. exact HSo.
+      - apply in_combine_app. apply (Forall2_len _ _ _ P1'). }
+    assert (Hlen : length (band p (map fst (concat (bs1' ++ o' :: bs2')))) = length o).
+    { rewrite <- (map_length fst (band _ _)), band_fst, Hsel, map_length.
+      destruct BFo1 as [Pm _]. apply Permutation_length in Pm. rewrite !map_length in Pm. exact Pm. }
+    rewrite Hlen.
+    (* what the lower bands received *)
+    rewrite (lower_bands_final ps1 p ps2 bs1' o' bs2' HSo P1' Po' P3').
+    rewrite <- fairs_sum_fair. rewrite <- Hlow0. rewrite <- (lower_bands_initial qs1 ps1 p ps2 Hps).
+    assert (Hgain : fairs (concat bs2') - fairs (concat (map (fun p' => band p' qs1) ps2)) <= tp) by lra.
+    (* how the band's rounds ended *)
+    destruct (Hok p) as [_ [HWFp HEp]].
+    destruct (divide_up_to_exit k Hk _ _ _ _ _ Ht1 HWFp HEp DP) as [_ [_ Hex]].
+    assert (Hne : 1 <= nat_Q (length o)).
+    { rewrite <- Hlen. apply band_nonempty. exact Hq. }
+    destruct Hex as [[Hnoe Hidle]|[Hz|[_ Hlt]]].
+    - exfalso. rewrite (hand_out_bands_single_idle o ta Hnoe) in H2. inversion H2. subst o' tb.
+      assert (Hqo : In q (map fst o)).
+      { rewrite <- Hsel. apply filter_In. split; [exact Hq|apply Z.eqb_refl]. }
+      apply in_map_iff in Hqo as [x [Ex Hx]].
+      assert (Hsx : satisfied (fst x) = false) by (rewrite Ex; exact Hs).
+      specialize (Hidle x Hx Hsx). unfold band_eff in *. cbn [fst] in Heff. rewrite Ex in Hidle.
+      rewrite (total_weights_fst (band p (map fst (concat (bs1' ++ o :: bs2')))) o) in Heff.
+      + lra.
+      + rewrite band_fst. exact Hsel.
+    - lra.
+    - assert (entries o <= nat_Q (length o)) by (apply nat_Q_le, filter_length_le). lra. }
+  intros H. inversion H. subst out rem. clear H. intros q Hq _ _.
+  rewrite Hlow0. pose proof (band_nonempty q qs1 Hq). lra.
+Qed.
+
+(** * Non-vacuity of the hypotheses of clauses 5-7 *)
+Definition ex_hi : queue := mkQ 1 1 0 0 unlimited 1 100 0 0.
+Definition ex_lo : queue := mkQ 2 0 0 0 unlimited 2 100 0 0.
+Definition ex_zero : queue := mkQ 1 0 0 0 unlimited 0 100 0 0.
+Lemma ex_clause_hypotheses :
+  (* 6: an unsatisfied queue with positive effective weight above a lower band *)
+  (exists out rem q, set_resource_share 10 0 [ex_hi; ex_lo] = Done (out, rem) /\ In q out
+                     /\ satisfied q = false /\ 0 < band_eff 0 (band (q_prio q) out) (q, None)
+                     /\ filter (lower (q_prio q)) out <> [])
+  (* 5: surplus left over next to an unsatisfied queue *)
+  /\ (exists out rem q, set_resource_share 10 0 [ex_zero] = Done (out, rem) /\ 0 < rem
+                        /\ In q out /\ satisfied q = false)
+  (* 7: two queues in the same situation with different weights *)
+  /\ (exists out rem q1 q2, set_resource_share 10 0 [ex_lo; ex_zero] = Done (out, rem)
+                            /\ In q1 out /\ In q2 out /\ same_situation q1 q2 = true
+                            /\ q_weight q1 < q_weight q2).
+Proof.
+  split; [|split].
+  - eexists. eexists. exists (mkQ 1 1 0 0 unlimited 1 100 0 10).
+    split; [vm_compute; reflexivity|]. split; [left; reflexivity|].
+    split; [reflexivity|]. split; [vm_compute; reflexivity|]. vm_compute. discriminate.
+  - eexists. eexists. exists ex_zero.
+    split; [vm_compute; reflexivity|]. split; [vm_compute; reflexivity|].
+    split; [left; reflexivity|reflexivity].
+  - eexists. eexists. exists ex_zero, (mkQ 2 0 0 0 unlimited 2 100 0 10).
+    split; [vm_compute; reflexivity|]. split; [right; left; reflexivity|].
+    split; [left; reflexivity|]. split; vm_compute; reflexivity.
 Qed.
